@@ -32,23 +32,32 @@ Definition dtab := list N.
 Definition dget (tb : dtab) (s : state) : N := nth (N.to_nat (state_idx s)) tb 0.
 (* what a state found on the state stack may need at most (checked: nothing that needs more is ever pushed) *)
 Definition stack_bound : N := 1.
-Definition dreg (tb : dtab) (r : option state) : N := match r with Some s => dget tb s | None => stack_bound end.
+(* the states in which the top of the state stack is known to need no look-back (hint, checked by dist_ok) *)
+Definition tight_states : list state := [StBodyBody; StRequestBody; StResponseBody; StTypeBody].
+Definition tight (s : state) : bool := in_states s tight_states.
+(* the state register inside a leaf: a known state, or a state popped from the stack (true: popped while the top of
+   the stack was known to need no look-back) *)
+Inductive rk : Set := RK (s : state) | RPop (zero : bool).
+Definition dreg (tb : dtab) (r : rk) : N :=
+  match r with RK s => dget tb s | RPop true => 0 | RPop false => stack_bound end.
 Definition bump (x : exit) : N := match x with XNil => 1 | _ => 0 end.
 
 (* the least number of bytes a leaf needs behind the read position, given the needs of the other states;
    r = the state register as far as it is known inside the leaf (None after a pop: a state taken from the stack) *)
-Fixpoint leaf_need (tb : dtab) (r : option state) (acts : list act) (x : exit) : N :=
+Fixpoint leaf_need (tb : dtab) (z : bool) (r : rk) (acts : list act) (x : exit) : N :=
   match acts with
   | [] => match x with XErr _ => 0 | _ => dreg tb r - bump x end
-  | AFound back _ :: l => N.max back (leaf_need tb r l x)
-  | ARewind m :: l => m + leaf_need tb r l x
-  | ASetStep t :: l => leaf_need tb (Some t) l x
-  | APop :: l => leaf_need tb None l x
-  | _ :: l => leaf_need tb r l x
+  | AFound back _ :: l => N.max back (leaf_need tb z r l x)
+  | ARewind m :: l => m + leaf_need tb z r l x
+  | ASetStep t :: l => leaf_need tb z (RK t) l x
+  | APop :: l => leaf_need tb false (RPop z) l x
+  | APush t :: l => leaf_need tb (dget tb t =? 0) r l x
+  | APushCur :: l => leaf_need tb (dreg tb r =? 0) r l x
+  | _ :: l => leaf_need tb z r l x
   end.
 
 Definition state_need (tb : dtab) (s : state) : N :=
-  fold_left N.max (map (fun lf => leaf_need tb (Some s) (fst lf) (snd lf)) (tree_leaves (step_tree s)))
+  fold_left N.max (map (fun lf => leaf_need tb (tight s) (RK s) (fst lf) (snd lf)) (tree_leaves (step_tree s)))
             (if uses_prev (step_tree s) then 1 else 0).
 
 Fixpoint infer (n : nat) (tb : dtab) : dtab :=
@@ -57,30 +66,43 @@ Fixpoint infer (n : nat) (tb : dtab) : dtab :=
 (* inferred by evaluation; nothing below trusts it: only [dist_ok] counts *)
 Definition dist_table : dtab := Eval vm_compute in infer 12 (map (fun _ => 0) all_states).
 Definition dist (s : state) : N := dget dist_table s.
-Definition dist_reg (r : option state) : N := match r with Some s => dist s | None => stack_bound end.
+Definition dist_reg (r : rk) : N := match r with RK s => dist s | RPop true => 0 | RPop false => stack_bound end.
 
 (* the check, forwards: d = number of bytes known to have been read since the insertion point *)
-Definition fstep (dr : N * option state) (a : act) : option (N * option state) :=
-  let (d, r) := dr in
+(* z = the top of the state stack is known to need no look-back *)
+Definition fstep (dr : N * rk * bool) (a : act) : option (N * rk * bool) :=
+  let '(d, r, z) := dr in
   match a with
-  | AFound back _ => if back <=? d then Some (d, r) else None
-  | ARewind m => if m <=? d then Some (d - m, r) else None
-  | ASetStep t => Some (d, Some t)
-  | APush t => if dist t <=? stack_bound then Some (d, r) else None
-  | APushCur => if dist_reg r <=? stack_bound then Some (d, r) else None
-  | APop => Some (d, None)
-  | AReadSchema | AReadEnum => Some (d, r)
+  | AFound back _ => if back <=? d then Some dr else None
+  | ARewind m => if m <=? d then Some (d - m, r, z) else None
+  | ASetStep t => Some (d, RK t, z)
+  | APush t =>
+    match r with
+    | RK _ => if (dist t <=? stack_bound) && (negb (tight t) || z) then Some (d, r, dist t =? 0) else None
+    | RPop _ => None
+    end
+  | APushCur =>
+    match r with
+    | RK s => if (dist s <=? stack_bound) && (negb (tight s) || z) then Some (d, r, dist s =? 0) else None
+    | RPop _ => None
+    end
+  | APop => Some (d, RPop z, false)
+  | AReadSchema | AReadEnum => Some dr
   end.
 
-Fixpoint ffold (dr : N * option state) (l : list act) : option (N * option state) :=
+Fixpoint ffold (dr : N * rk * bool) (l : list act) : option (N * rk * bool) :=
   match l with
   | [] => Some dr
   | a :: r => match fstep dr a with Some dr' => ffold dr' r | None => None end
   end.
 
 Definition leaf_dist_ok (s : state) (lf : list act * exit) : bool :=
-  match ffold (dist s, Some s) (fst lf) with
-  | Some (d, r) => match snd lf with XErr _ => true | x => dist_reg r <=? d + bump x end
+  match ffold (dist s, RK s, tight s) (fst lf) with
+  | Some (d, r, z) =>
+    match snd lf with
+    | XErr _ => true
+    | x => (dist_reg r <=? d + bump x) && match r with RK t => negb (tight t) || z | RPop _ => true end
+    end
   | None => false
   end.
 
@@ -146,6 +168,13 @@ Proof.
     + destruct (pre g); [discriminate|]. destruct (size <? pos g); discriminate.
 Qed.
 
+(* under a tight state lies a state that needs no look-back *)
+Definition top_zero (st : list state) : Prop := match st with t :: _ => dist t = 0 | [] => True end.
+Fixpoint chain (st : list state) : Prop :=
+  match st with x :: t => (tight x = true -> top_zero t) /\ chain t | [] => True end.
+Definition pairc (g : cfg) : Prop := tight (reg g) = true -> top_zero (sstk g).
+Definition stack_inv (g : cfg) : Prop := Forall (fun s => dist s <= stack_bound) (sstk g) /\ chain (reg g :: sstk g).
+
 Section Shift.
   Variables jsc enum : bytes -> len_result.
   Variables D D' : bytes.          (* the input, the input with the blanks inserted *)
@@ -173,7 +202,8 @@ Section Shift.
     Z_pre : exists x, pre g = x ++ pa /\ pre g' = x ++ pa' /\
                       n + N.of_nat (List.length x) <= pos g /\ d <= N.of_nat (List.length x);
     Z_len : size <= pos g + N.of_nat (List.length (rest g));
-    Z_stk : Forall (fun s => dist s <= stack_bound) (sstk g)
+    Z_stk : Forall (fun s => dist s <= stack_bound) (sstk g);
+    Z_chain : chain (sstk g)
   }.
 
   (* ... and the recorded positions: all pending events and open lexemes lie after the insertion point; the remembered
@@ -191,7 +221,7 @@ Section Shift.
 
   Lemma ZRel_weaken d d' g g' : d' <= d -> ZRel d g g' -> ZRel d' g g'.
   Proof.
-    intros H [A B C E (x & X1 & X2 & X3 & X4) F G]. split; auto. exists x. repeat split; auto. lia.
+    intros H [A B C E (x & X1 & X2 & X3 & X4) F G G2]. split; auto. exists x. repeat split; auto. lia.
   Qed.
 
   Lemma Rel_weaken d d' g g' : d' <= d -> Rel d g g' -> Rel d' g g'.
@@ -243,14 +273,16 @@ Section Shift.
   Qed.
 
   (* ---- actions ---- *)
-  Definition regok (r : option state) (g : cfg) : Prop :=
-    match r with Some s => reg g = s | None => dist (reg g) <= stack_bound end.
-  Definition RelS (dr : N * option state) (g g' : cfg) : Prop := Rel (fst dr) g g' /\ regok (snd dr) g.
+  Definition regok (r : rk) (g : cfg) : Prop :=
+    match r with RK s => reg g = s | RPop z => dist (reg g) <= (if z then 0 else stack_bound) /\ pairc g end.
+  Definition topz (z : bool) (g : cfg) : Prop := z = true -> top_zero (sstk g).
+  Definition RelS (dr : N * rk * bool) (g g' : cfg) : Prop :=
+    Rel (fst (fst dr)) g g' /\ regok (snd (fst dr)) g /\ topz (snd dr) g.
 
   Lemma advance_shift d g g' m :
     Rel d g g' -> Rel (d + N.min m (N.of_nat (List.length (rest g)))) (advance g m) (advance g' m).
   Proof.
-    intros [[A B C E (x & X1 & X2 & X3 & X4) F G] [E1 E2 E3 E4 E5 E6]].
+    intros [[A B C E (x & X1 & X2 & X3 & X4) F G G2] [E1 E2 E3 E4 E5 E6]].
     unfold advance. rewrite E, X1, X2, !fwd_eq. cbn [fst snd].
     split; split; cbn [reg sstk pos pre rest finds estk lastp set_zip]; auto.
     - lia.
@@ -263,7 +295,7 @@ Section Shift.
   Lemma retreat_shift d g g' m :
     Rel d g g' -> m <= d -> Rel (d - m) (retreat g m) (retreat g' m).
   Proof.
-    intros [[A B C E (x & X1 & X2 & X3 & X4) F G] [E1 E2 E3 E4 E5 E6]] Hm.
+    intros [[A B C E (x & X1 & X2 & X3 & X4) F G G2] [E1 E2 E3 E4 E5 E6]] Hm.
     unfold retreat. rewrite E, X1, X2, !fwd_eq. cbn [fst snd].
     rewrite !firstn_app, !skipn_app.
     replace (N.to_nat m - List.length x)%nat with 0%nat by lia. cbn [firstn skipn]. rewrite !app_nil_r.
@@ -277,56 +309,68 @@ Section Shift.
     RelS dr g g' -> fstep dr a = Some dr' ->
     orel k (RelS dr') (exec_act jsc enum a g) (exec_act jsc enum a g').
   Proof.
-    destruct dr as [d r]. intros [HR Hr] Hf. cbn [fst snd] in *.
-    pose proof HR as [[A B C E (x & X1 & X2 & X3 & X4) F G] [E1 E2 E3 E4 E5 E6]].
+    destruct dr as [[d r] z]. intros (HR & Hr & Hz) Hf. cbn [fst snd] in *.
+    pose proof HR as [[A B C E (x & X1 & X2 & X3 & X4) F G G2] [E1 E2 E3 E4 E5 E6]].
     destruct a as [back e|s|s| | |m| |]; cbn [fstep] in Hf; cbn [exec_act].
     - (* AFound *)
       destruct (back <=? d) eqn:Hb; [|discriminate]. injection Hf as <-. apply N.leb_le in Hb.
       rewrite C.
       replace (pos g <? back) with false by (symmetry; apply N.ltb_ge; lia).
       replace (pos g + k <? back) with false by (symmetry; apply N.ltb_ge; lia).
-      cbn [orel]. split; [|exact Hr]. split; split; cbn [reg sstk pos pre rest finds estk lastp set_finds]; auto.
+      cbn [orel]. split; [|split; [destruct r; exact Hr | exact Hz]].
+      split; split; cbn [reg sstk pos pre rest finds estk lastp set_finds]; auto.
       + exists x. auto.
       + rewrite E1, map_app. cbn [map]. unfold shev at 2. cbn [fst snd]. replace (pos g + k - back) with (pos g - back + k) by lia. reflexivity.
       + apply Forall_app. split; [exact E2|]. constructor; [|constructor]. unfold after. cbn [snd]. lia.
     - (* ASetStep *)
-      injection Hf as <-. cbn [orel]. split; [|reflexivity].
+      injection Hf as <-. cbn [orel]. split; [|split; [reflexivity | exact Hz]].
       split; split; cbn [reg sstk pos pre rest finds estk lastp set_reg]; auto. exists x. auto.
     - (* APush *)
-      destruct (dist s <=? stack_bound) eqn:Hs; [|discriminate]. injection Hf as <-. apply N.leb_le in Hs.
-      cbn [orel]. split; [|exact Hr].
-      split; split; cbn [reg sstk pos pre rest finds estk lastp set_sstk]; auto.
-      + rewrite B. reflexivity.
-      + exists x. auto.
+      destruct r as [s0|zz]; [|discriminate].
+      destruct ((dist s <=? stack_bound) && (negb (tight s) || z)) eqn:Hs; [|discriminate]. injection Hf as <-.
+      apply andb_true_iff in Hs as [Hs1 Hs2]. apply N.leb_le in Hs1.
+      cbn [orel]. split; [|split; [exact Hr|]].
+      + split; split; cbn [reg sstk pos pre rest finds estk lastp set_sstk]; auto.
+        * rewrite B. reflexivity.
+        * exists x. auto.
+        * split; [|exact G2]. intros Ht. rewrite Ht in Hs2. cbn in Hs2. apply Hz. exact Hs2.
+      + intros Hd. cbn [snd] in Hd. cbn [sstk set_sstk top_zero]. apply N.eqb_eq. exact Hd.
     - (* APushCur *)
-      destruct (dist_reg r <=? stack_bound) eqn:Hs; [|discriminate]. injection Hf as <-. apply N.leb_le in Hs.
-      cbn [orel]. split; [|exact Hr].
-      split; split; cbn [reg sstk pos pre rest finds estk lastp set_sstk]; auto.
-      + rewrite A, B. reflexivity.
-      + exists x. auto.
-      + constructor; [|exact G]. destruct r as [s|]; cbn [regok dist_reg] in *; [rewrite Hr; exact Hs | exact Hr].
+      destruct r as [s0|zz]; [|discriminate]. cbn [regok] in Hr.
+      destruct ((dist s0 <=? stack_bound) && (negb (tight s0) || z)) eqn:Hs; [|discriminate]. injection Hf as <-.
+      apply andb_true_iff in Hs as [Hs1 Hs2]. apply N.leb_le in Hs1.
+      cbn [orel]. split; [|split; [exact Hr|]].
+      + split; split; cbn [reg sstk pos pre rest finds estk lastp set_sstk]; auto.
+        * rewrite A, B. reflexivity.
+        * exists x. auto.
+        * constructor; [rewrite Hr; exact Hs1 | exact G].
+        * split; [|exact G2]. rewrite Hr. intros Ht. rewrite Ht in Hs2. cbn in Hs2. apply Hz. exact Hs2.
+      + intros Hd. cbn [snd] in Hd. cbn [sstk set_sstk top_zero]. rewrite Hr. apply N.eqb_eq. exact Hd.
     - (* APop *)
       injection Hf as <-. rewrite B. destruct (sstk g) as [|s st] eqn:Est; cbn [orel]; [reflexivity|].
-      split.
+      destruct G2 as [G3 G4]. split; [|split].
       + split; split; cbn [reg sstk pos pre rest finds estk lastp set_sstk set_reg]; auto.
         * exists x. auto.
         * inversion G; assumption.
-      + cbn [regok reg set_reg snd]. inversion G; assumption.
+      + cbn [regok reg sstk set_reg set_sstk snd fst]. split.
+        * destruct z; [|inversion G; assumption]. unfold topz in Hz. rewrite Est in Hz. pose proof (Hz eq_refl) as Hz0.
+          cbn [top_zero] in Hz0. rewrite Hz0. lia.
+        * unfold pairc. cbn [reg sstk set_reg set_sstk]. exact G3.
+      + intros Hd. discriminate.
     - (* ARewind *)
       destruct (m <=? d) eqn:Hm; [|discriminate]. injection Hf as <-. apply N.leb_le in Hm.
       rewrite C.
       replace (pos g <? m) with false by (symmetry; apply N.ltb_ge; lia).
       replace (pos g + k <? m) with false by (symmetry; apply N.ltb_ge; lia).
-      cbn [orel]. split; [apply retreat_shift; assumption|].
-      destruct r; cbn [regok snd] in *; exact Hr.
+      cbn [orel]. split; [apply retreat_shift; assumption|]. split; [destruct r; exact Hr | exact Hz].
     - (* AReadSchema *)
       injection Hf as <-. unfold read_body. rewrite E, C. destruct (jsc (rest g)) as [len|p msg]; cbn [orel].
-      + split; [|destruct (0 <? len), r; cbn [regok snd] in *; exact Hr].
+      + split; [|destruct (0 <? len); (split; [destruct r; exact Hr | exact Hz])].
         destruct (0 <? len); [|exact HR]. cbn [fst]. eapply Rel_weaken; [|apply advance_shift; exact HR]. lia.
       + split; [lia | reflexivity].
     - (* AReadEnum *)
       injection Hf as <-. unfold read_body. rewrite E, C. destruct (enum (rest g)) as [len|p msg]; cbn [orel].
-      + split; [|destruct (0 <? len), r; cbn [regok snd] in *; exact Hr].
+      + split; [|destruct (0 <? len); (split; [destruct r; exact Hr | exact Hz])].
         destruct (0 <? len); [|exact HR]. cbn [fst]. eapply Rel_weaken; [|apply advance_shift; exact HR]. lia.
       + split; [lia | reflexivity].
   Qed.
@@ -353,40 +397,45 @@ Section Shift.
   Qed.
 
   (* after the call: d bytes lie behind, and the new state asks for at most one more - the byte just handled *)
-  Definition Rel1 (g g' : cfg) : Prop := exists d, Rel d g g' /\ dist (reg g) <= d + 1.
+  Definition Rel1 (g g' : cfg) : Prop := exists d, Rel d g g' /\ dist (reg g) <= d + 1 /\ pairc g.
 
   Lemma dispatch_shift f : forall c g g',
-    Rel (dist (reg g)) g g' ->
+    Rel (dist (reg g)) g g' -> pairc g ->
     orel k Rel1 (dispatch jsc enum D size f c g) (dispatch jsc enum D' size' f c g').
   Proof.
-    induction f as [|f IH]; intros c g g' HR; [exact I|].
+    induction f as [|f IH]; intros c g g' HR Hpc; [exact I|].
     cbn [dispatch]. destruct (dist_ok_state (reg g)) as [Hp Hl].
     rewrite (Z_reg _ _ _ (proj1 HR)).
     rewrite (eval_tree_shift _ _ c _ _ HR Hp).
     destruct (eval_tree D size (step_tree (reg g)) c g) as [ax|p0 e0| |] eqn:Eax; cbn [obind orel]; auto;
       [|exfalso; eapply eval_tree_not_err; eauto].
     specialize (Hl ax (eval_tree_in_leaves _ _ _ _ _ _ Eax)). unfold leaf_dist_ok in Hl.
-    destruct (ffold (dist (reg g), Some (reg g)) (fst ax)) as [[d1 r1]|] eqn:Ff; [|discriminate].
-    eapply orel_bind; [eapply exec_acts_shift; [|exact Ff]; split; [exact HR | reflexivity]|].
-    intros g1 g1' [H1 H2]. cbn [fst snd] in H1, H2.
-    assert (Hreg : forall b, dist_reg r1 <= d1 + b -> dist (reg g1) <= d1 + b).
-    { intros b Hb. destruct r1 as [s|]; cbn [regok dist_reg] in *; [rewrite H2; exact Hb | lia]. }
+    destruct (ffold (dist (reg g), RK (reg g), tight (reg g)) (fst ax)) as [[[d1 r1] z1]|] eqn:Ff; [|discriminate].
+    eapply orel_bind; [eapply exec_acts_shift; [|exact Ff]; split; [exact HR | split; [reflexivity | exact Hpc]]|].
+    intros g1 g1' (H1 & H2 & H3). cbn [fst snd] in H1, H2, H3.
+    assert (Hfin : forall b, (dist_reg r1 <=? d1 + b) && match r1 with RK t => negb (tight t) || z1 | RPop _ => true end = true ->
+                             dist (reg g1) <= d1 + b /\ pairc g1).
+    { intros b Hb. apply andb_true_iff in Hb as [Hb1 Hb2]. apply N.leb_le in Hb1.
+      destruct r1 as [s|zz]; cbn [regok dist_reg] in *.
+      - split; [rewrite H2; exact Hb1|]. unfold pairc. rewrite H2. intros Ht. rewrite Ht in Hb2. cbn in Hb2. apply H3. exact Hb2.
+      - destruct H2 as [H2 H2']. split; [|exact H2']. destruct zz; lia. }
     destruct (snd ax) as [| |e]; cbn [orel].
-    - exists d1. split; [exact H1|]. apply Hreg. apply N.leb_le. exact Hl.
-    - apply IH. eapply Rel_weaken; [|exact H1]. apply N.leb_le in Hl. cbn [bump] in Hl.
-      specialize (Hreg 0). rewrite !N.add_0_r in Hreg, Hl. apply Hreg. exact Hl.
+    - destruct (Hfin _ Hl) as [F1 F2]. exists d1. auto.
+    - destruct (Hfin _ Hl) as [F1 F2]. cbn [bump] in F1. rewrite N.add_0_r in F1.
+      apply IH; [eapply Rel_weaken; [|exact H1]; exact F1 | exact F2].
     - split; [exact (Z_pos _ _ _ (proj1 H1)) | reflexivity].
   Qed.
 
   (* ---- the invariant of the byte loop ---- *)
-  Definition LRel (g g' : cfg) : Prop := Rel 0 g g' /\ (pos g <= size -> Rel (dist (reg g)) g g').
+  Definition LRel (g g' : cfg) : Prop := Rel 0 g g' /\ (pos g <= size -> Rel (dist (reg g)) g g') /\ pairc g.
 
   Lemma advance1_shift g1 g1' : Rel1 g1 g1' -> LRel (advance g1 1) (advance g1' 1).
   Proof.
-    intros (d & HR & Hd). pose proof (advance_shift d g1 g1' 1 HR) as H. split.
+    intros (d & HR & Hd & Hpc). pose proof (advance_shift d g1 g1' 1 HR) as H. split; [|split].
     - eapply Rel_weaken; [|exact H]. lia.
     - intros Hp. eapply Rel_weaken; [|exact H].
       pose proof (Z_len _ _ _ (proj1 HR)) as L. unfold advance in Hp |- *. cbn [pos reg set_zip] in Hp |- *. lia.
+    - exact Hpc.
   Qed.
 
   (* ---- lexeme events ---- *)
@@ -395,7 +444,7 @@ Section Shift.
 
   Lemma ZRel_same_zip d g g' h h' : ZRel d g g' -> same_zip g h -> same_zip g' h' -> ZRel d h h'.
   Proof.
-    intros [A B C E X F G] (a1 & a2 & a3 & a4 & a5) (b1 & b2 & b3 & b4 & b5).
+    intros [A B C E X F G G2] (a1 & a2 & a3 & a4 & a5) (b1 & b2 & b3 & b4 & b5).
     split; rewrite ?a1, ?a2, ?a3, ?a4, ?a5, ?b1, ?b2, ?b3, ?b4, ?b5; assumption.
   Qed.
 
@@ -475,10 +524,11 @@ Section Shift.
 
   Lemma LRel_same_zip g g' h h' : LRel g g' -> same_zip g h -> same_zip g' h' -> ERel h h' -> LRel h h'.
   Proof.
-    intros [[Z0 _] Hc] S1 S2 HE. split.
+    intros [[Z0 _] [Hc Hpc]] S1 S2 HE. split; [|split].
     - split; [eapply ZRel_same_zip; eauto | exact HE].
     - destruct S1 as (a1 & a2 & a3 & a4 & a5). rewrite a1, a3. intros Hp.
       split; [eapply ZRel_same_zip; [exact (proj1 (Hc Hp))| repeat split; assumption | exact S2] | exact HE].
+    - destruct S1 as (a1 & a2 & _). unfold pairc. rewrite a1, a2. exact Hpc.
   Qed.
 
   (* ---- the byte loop, Next(), the whole scan ---- *)
@@ -488,13 +538,13 @@ Section Shift.
     LRel g g' -> orel k RR (main_loop jsc enum D size f g) (main_loop jsc enum D' size' f g').
   Proof.
     induction f as [|f IH]; intros g g' HL; [exact I|].
-    cbn [main_loop]. pose proof HL as [[Z0 E0] Hc].
+    cbn [main_loop]. pose proof HL as [[Z0 E0] [Hc Hpc]].
     unfold size' at 1 2 3. rewrite (Z_pos _ _ _ Z0), leb_shift, eqb_shift, (Z_rest _ _ _ Z0).
     destruct (pos g <=? size) eqn:Hp; [|cbn [orel]; split; [exact HL | reflexivity]].
     apply N.leb_le in Hp. specialize (Hc Hp).
     destruct (if pos g =? size then Some 0 else hd_error (rest g)) as [c|]; cbn [orel]; [|reflexivity].
     destruct ((c =? 0) && negb (pos g =? size)); cbn [orel]; [split; reflexivity|].
-    eapply orel_bind; [apply dispatch_shift; exact Hc|].
+    eapply orel_bind; [apply dispatch_shift; [exact Hc | exact Hpc]|].
     intros g1 g1' H1. apply advance1_shift in H1.
     assert (Hlen : List.length (finds (advance g1' 1)) = List.length (finds (advance g1 1))).
     { rewrite (E_finds _ _ (proj2 (proj1 H1))). apply map_length. }
@@ -510,7 +560,7 @@ Section Shift.
   Lemma next_shift f g g' :
     LRel g g' -> orel k RR (next jsc enum D size f g) (next jsc enum D' size' f g').
   Proof.
-    intros HL. unfold next. pose proof HL as [[Z0 E0] Hc]. pose proof E0 as [E1 E2 E3 E4 E5 E6]. rewrite E1.
+    intros HL. unfold next. pose proof HL as [[Z0 E0] [Hc Hpc]]. pose proof E0 as [E1 E2 E3 E4 E5 E6]. rewrite E1.
     destruct (finds g) as [|ev fs] eqn:Ef; cbn [map]; [apply main_loop_shift; exact HL|].
     assert (HE2 : ERel (set_finds g fs) (set_finds g' (map shev fs))).
     { split; cbn [reg sstk pos pre rest finds estk lastp set_finds]; auto. inversion E2; assumption. }
@@ -800,16 +850,17 @@ Section Whole.
   Lemma she_fuel e : e <> SFuel -> she k e <> SFuel.
   Proof. destruct e; cbn; congruence. Qed.
 
-  (* blanks inserted in a state where they are inert, with nothing pending and no lexeme open: the lexemes returned
-     before the insertion point stay, those after it are shifted, the verdict is the same (its position shifted).
-     Premises: the two runs up to the insertion point (same configuration but for the text ahead). *)
-  Theorem blank_insertion_shift_lemma g acc :
-    Forall blank w ->
+  (* the configuration after the inserted bytes: g moved by |w| *)
+  Definition moved (g : cfg) : cfg := set_zip g (pos g + k) (rev w ++ pre g) (rest g).
+
+  (* ANY inserted bytes w (here no assumption on w): if the longer input is scanned up to the configuration of the
+     shorter one moved by |w|, the rest of the scan is the same, moved by |w| *)
+  Theorem insertion_shift_lemma g acc :
     reach jsc enum D size g acc ->
-    reach jsc enum D' (size' size k) (set_zip g (pos g) (pre g) (w ++ b)) acc ->
+    reach jsc enum D' (size' size k) (moved g) acc ->
     pos g = n -> pre g = rev a -> rest g = b -> finds g = [] -> estk g = [] ->
-    In (reg g) shift_states ->
-    Forall (fun s => dist s <= stack_bound) (sstk g) ->
+    dist (reg g) = 0 ->
+    stack_inv g ->
     Forall (fun l => le l < n) (lastp g) ->
     verdict (scan jsc enum D) <> SFuel -> verdict (scan jsc enum D') <> SFuel ->
     exists ls,
@@ -817,16 +868,10 @@ Section Whole.
       fst (fst (scan jsc enum D')) = rev acc ++ map (shL k) ls /\
       verdict (scan jsc enum D') = she k (verdict (scan jsc enum D)).
   Proof.
-    intros Hw R1 R2 Hpos Hpre Hrest Hf He Hs Hstk Hlast V1 V2.
-    (* the inserted blanks *)
-    pose proof (blanks_reach D' (size' size k) acc w (set_zip g (pos g) (pre g) (w ++ b)) b Hw Hs Hf eq_refl) as R3.
-    cbn [pos pre set_zip] in R3.
-    assert (Hle : pos g + k <= size' size k) by (unfold size'; rewrite Hpos, app_length; lia).
-    specialize (R3 Hle R2).
-    set (gs := set_zip (set_zip g (pos g) (pre g) (w ++ b)) (pos g + k) (rev w ++ pre g) b) in R3.
-    (* the translation relation holds there *)
+    intros R1 R3 Hpos Hpre Hrest Hf He Hs [Hstk [Hpc Hch]] Hlast V1 V2.
+    set (gs := moved g) in *.
     assert (HR0 : Rel size n k (rev a) (rev w ++ rev a) 0 g gs).
-    { split; split; cbn [reg sstk pos pre rest finds estk lastp set_zip gs]; auto.
+    { split; split; cbn [reg sstk pos pre rest finds estk lastp set_zip gs moved]; auto.
       - exists []. rewrite Hpre. cbn. repeat split; lia.
       - rewrite Hpos, Hrest, app_length. lia.
       - rewrite Hf. reflexivity.
@@ -837,8 +882,7 @@ Section Whole.
         unfold shl. replace (le l <? n) with true by (symmetry; apply N.ltb_lt; exact Hl). reflexivity.
       - eapply Forall_impl; [|exact Hlast]. intros l Hl. left. exact Hl. }
     assert (HL : LRel size n k (rev a) (rev w ++ rev a) g gs).
-    { split; [exact HR0|]. intros _. rewrite (shift_state_dist _ Hs). exact HR0. }
-    (* both scans pass through these configurations *)
+    { split; [exact HR0|]. split; [intros _; rewrite Hs; exact HR0 | exact Hpc]. }
     unfold scan in *. rewrite size_ins in *.
     destruct (reach_scan _ _ _ _ _ _ R1 _ V1) as [f1 E1].
     destruct (reach_scan _ _ _ _ _ _ R3 _ V2) as [f2 E2].
@@ -852,6 +896,32 @@ Section Whole.
     { rewrite <- (scan_all_mono jsc enum D' (size' size k) f1 (Nat.max f1 f2) gs acc (PeanoNat.Nat.le_max_l _ _) W2).
       apply (scan_all_mono jsc enum D' (size' size k) f2 (Nat.max f1 f2) gs acc (PeanoNat.Nat.le_max_r _ _) W3). }
     exists ls. unfold verdict. rewrite <- E1, <- E2, <- EQ. auto.
+  Qed.
+
+  (* blanks inserted in a state where they are inert, with nothing pending and no lexeme open: the lexemes returned
+     before the insertion point stay, those after it are shifted, the verdict is the same (its position shifted).
+     Premises: the two runs up to the insertion point (same configuration but for the text ahead). *)
+  Theorem blank_insertion_shift_lemma g acc :
+    Forall blank w ->
+    reach jsc enum D size g acc ->
+    reach jsc enum D' (size' size k) (set_zip g (pos g) (pre g) (w ++ b)) acc ->
+    pos g = n -> pre g = rev a -> rest g = b -> finds g = [] -> estk g = [] ->
+    In (reg g) shift_states ->
+    stack_inv g ->
+    Forall (fun l => le l < n) (lastp g) ->
+    verdict (scan jsc enum D) <> SFuel -> verdict (scan jsc enum D') <> SFuel ->
+    exists ls,
+      fst (fst (scan jsc enum D)) = rev acc ++ ls /\
+      fst (fst (scan jsc enum D')) = rev acc ++ map (shL k) ls /\
+      verdict (scan jsc enum D') = she k (verdict (scan jsc enum D)).
+  Proof.
+    intros Hw R1 R2 Hpos Hpre Hrest Hf He Hs Hstk Hlast V1 V2.
+    pose proof (blanks_reach D' (size' size k) acc w (set_zip g (pos g) (pre g) (w ++ b)) b Hw Hs Hf eq_refl) as R3.
+    cbn [pos pre set_zip] in R3.
+    assert (Hle : pos g + k <= size' size k) by (unfold size'; rewrite Hpos, app_length; lia).
+    specialize (R3 Hle R2).
+    apply (insertion_shift_lemma g acc); try assumption; [|apply shift_state_dist; exact Hs].
+    unfold moved. rewrite Hrest. exact R3.
   Qed.
 End Whole.
 
@@ -871,7 +941,7 @@ Theorem blank_insertion_shift_total_lemma jsc enum a w b g acc :
   reach jsc enum (a ++ w ++ b) (N.of_nat (List.length (a ++ w ++ b))) (set_zip g (pos g) (pre g) (w ++ b)) acc ->
   pos g = N.of_nat (List.length a) -> pre g = rev a -> rest g = b -> finds g = [] -> estk g = [] ->
   In (reg g) shift_states ->
-  Forall (fun s => dist s <= stack_bound) (sstk g) ->
+  stack_inv g ->
   Forall (fun l => le l < N.of_nat (List.length a)) (lastp g) ->
   exists ls,
     fst (fst (scan jsc enum (a ++ b))) = rev acc ++ ls /\
@@ -900,7 +970,7 @@ Proof.
   assert (Hs : In (reg (init_cfg b)) shift_states) by (vm_compute; auto 20).
   destruct (blank_insertion_shift_total_lemma jsc enum [] w b (init_cfg b) [] S1 S2 HB Hw
               (reach_init jsc enum b _) (reach_init jsc enum (w ++ b) _)
-              eq_refl eq_refl eq_refl eq_refl eq_refl Hs (Forall_nil _) (Forall_nil _)) as (ls & A & B & C).
+              eq_refl eq_refl eq_refl eq_refl eq_refl Hs (conj (Forall_nil _) (conj (fun _ => I) I)) (Forall_nil _)) as (ls & A & B & C).
   cbn [app rev] in A, B, C. rewrite A, B, C. split; reflexivity.
 Qed.
 
@@ -964,7 +1034,7 @@ Theorem blank_insertion_shift_run_lemma jsc enum a w b g acc :
   prefix_run jsc enum (a ++ w ++ b) (N.of_nat (List.length a)) = Some (set_zip g (pos g) (pre g) (w ++ b), acc) ->
   pos g = N.of_nat (List.length a) -> pre g = rev a -> rest g = b -> finds g = [] -> estk g = [] ->
   In (reg g) shift_states ->
-  Forall (fun s => dist s <= stack_bound) (sstk g) ->
+  stack_inv g ->
   Forall (fun l => le l < N.of_nat (List.length a)) (lastp g) ->
   exists ls,
     fst (fst (scan jsc enum (a ++ b))) = rev acc ++ ls /\
@@ -1014,7 +1084,7 @@ Module ShiftExample.
     - unfold isb. vm_compute. repeat constructor.
     - unfold w. repeat (apply Forall_cons; [unfold blank, blank_bytes; cbn [In]; auto 10|]). apply Forall_nil.
     - rewrite Hreg. vm_compute. auto 20.
-    - rewrite Hst. constructor.
+    - unfold stack_inv. rewrite Hst. split; [constructor | split; [intros _; exact I | exact I]].
     - clear -Hl. destruct (lastp g) as [|l [|l2 r]]; try discriminate. injection Hl as E1 E2.
       constructor; [|constructor]. rewrite E2. reflexivity.
     - exists acc, ls. split; [exact A|]. split; [exact B|]. split; [exact Hn|].
@@ -1030,28 +1100,43 @@ Section StackInv.
   Variable D : bytes.
   Variable size : N.
 
-  Definition stk_ok (g : cfg) : Prop := Forall (fun s => dist s <= stack_bound) (sstk g).
+  Definition stk_ok (g : cfg) : Prop := stack_inv g.
+
+  (* inside a leaf *)
+  Definition J (dr : N * rk * bool) (g : cfg) : Prop :=
+    regok (snd (fst dr)) g /\ topz (snd dr) g /\ Forall (fun s => dist s <= stack_bound) (sstk g) /\ chain (sstk g).
 
   Lemma exec_act_stk a dr dr' g g' :
-    fstep dr a = Some dr' -> regok (snd dr) g -> stk_ok g -> exec_act jsc enum a g = Ok g' ->
-    stk_ok g' /\ regok (snd dr') g'.
+    fstep dr a = Some dr' -> J dr g -> exec_act jsc enum a g = Ok g' -> J dr' g'.
   Proof.
-    destruct dr as [d r]. cbn [snd]. intros Hf Hr Hs He.
-    assert (Keep : forall h, sstk h = sstk g -> reg h = reg g -> stk_ok h /\ regok r h).
-    { intros h E1 E2. unfold stk_ok. rewrite E1. split; [exact Hs|]. destruct r; cbn [regok] in *; rewrite E2; exact Hr. }
+    destruct dr as [[d r] z]. intros Hf (Hr & Hz & Hs & Hc) He. cbn [fst snd] in *.
+    assert (Keep : forall h, sstk h = sstk g -> reg h = reg g -> J (d, r, z) h).
+    { intros h E1 E2. unfold J, topz, pairc. cbn [fst snd]. rewrite E1. repeat split; auto.
+      destruct r as [s|zz]; cbn [regok] in *; unfold pairc in *; rewrite ?E1, ?E2; exact Hr. }
     destruct a as [back e|s|s| | |m| |]; cbn [fstep] in Hf; cbn [exec_act] in He.
     - destruct (back <=? d); [|discriminate]. injection Hf as <-. destruct (pos g <? back); [discriminate|].
       injection He as <-. apply Keep; reflexivity.
-    - injection Hf as <-. injection He as <-. split; [exact Hs | reflexivity].
-    - destruct (dist s <=? stack_bound) eqn:E; [|discriminate]. injection Hf as <-. injection He as <-.
-      apply N.leb_le in E. split; [constructor; assumption | exact Hr].
-    - destruct (dist_reg r <=? stack_bound) eqn:E; [|discriminate]. injection Hf as <-. injection He as <-.
-      apply N.leb_le in E. split; [|exact Hr]. constructor; [|exact Hs].
-      destruct r as [s|]; cbn [regok dist_reg] in *; [rewrite Hr; exact E | exact Hr].
+    - injection Hf as <-. injection He as <-. repeat split; auto.
+    - destruct r as [s0|zz]; [|discriminate].
+      destruct ((dist s <=? stack_bound) && (negb (tight s) || z)) eqn:E; [|discriminate]. injection Hf as <-. injection He as <-.
+      apply andb_true_iff in E as [E1 E2]. apply N.leb_le in E1. unfold J, topz. cbn [fst snd sstk set_sstk regok reg].
+      split; [exact Hr|]. split; [intros Hd; cbn [top_zero]; apply N.eqb_eq; exact Hd|]. split; [constructor; assumption|].
+      split; [|exact Hc]. intros Ht. rewrite Ht in E2. cbn in E2. apply Hz. exact E2.
+    - destruct r as [s0|zz]; [|discriminate]. cbn [regok] in Hr.
+      destruct ((dist s0 <=? stack_bound) && (negb (tight s0) || z)) eqn:E; [|discriminate]. injection Hf as <-. injection He as <-.
+      apply andb_true_iff in E as [E1 E2]. apply N.leb_le in E1. unfold J, topz. cbn [fst snd sstk set_sstk regok reg].
+      split; [exact Hr|]. split; [intros Hd; cbn [top_zero]; rewrite Hr; apply N.eqb_eq; exact Hd|].
+      split; [constructor; [rewrite Hr; exact E1 | exact Hs]|].
+      split; [|exact Hc]. rewrite Hr. intros Ht. rewrite Ht in E2. cbn in E2. apply Hz. exact E2.
     - injection Hf as <-. destruct (sstk g) as [|s st] eqn:Es; [discriminate|]. injection He as <-.
-      unfold stk_ok in *. rewrite Es in Hs. inversion Hs; subst. split; assumption.
+      destruct Hc as [Hc1 Hc2]. unfold J, topz, pairc. cbn [fst snd sstk reg set_sstk set_reg regok].
+      split; [split|].
+      + destruct z; [|inversion Hs; assumption]. unfold topz in Hz. rewrite Es in Hz. pose proof (Hz eq_refl) as Hz0.
+        cbn [top_zero] in Hz0. rewrite Hz0. lia.
+      + unfold pairc. cbn [sstk reg set_sstk set_reg]. exact Hc1.
+      + split; [discriminate|]. split; [inversion Hs; assumption | exact Hc2].
     - destruct (m <=? d); [|discriminate]. injection Hf as <-. destruct (pos g <? m); [discriminate|].
-      injection He as <-. apply Keep; reflexivity.
+      injection He as <-. destruct (Keep (retreat g m) eq_refl eq_refl) as (K1 & K2 & K3 & K4). repeat split; assumption.
     - injection Hf as <-. unfold read_body in He. destruct (jsc (rest g)); [|discriminate]. injection He as <-.
       destruct (0 <? n); apply Keep; reflexivity.
     - injection Hf as <-. unfold read_body in He. destruct (enum (rest g)); [|discriminate]. injection He as <-.
@@ -1059,13 +1144,13 @@ Section StackInv.
   Qed.
 
   Lemma exec_acts_stk acts : forall dr dr' g g',
-    ffold dr acts = Some dr' -> regok (snd dr) g -> stk_ok g -> exec_acts jsc enum acts g = Ok g' -> stk_ok g'.
+    ffold dr acts = Some dr' -> J dr g -> exec_acts jsc enum acts g = Ok g' -> J dr' g'.
   Proof.
-    induction acts as [|a acts IH]; intros dr dr' g g' Hf Hr Hs He.
-    - cbn in He. injection He as <-. exact Hs.
+    induction acts as [|a acts IH]; intros dr dr' g g' Hf HJ He.
+    - cbn in He, Hf. injection He as <-. injection Hf as <-. exact HJ.
     - cbn [ffold] in Hf. destruct (fstep dr a) as [dr1|] eqn:F1; [|discriminate].
       cbn [exec_acts] in He. destruct (exec_act jsc enum a g) as [g1| | |] eqn:E1; cbn [obind] in He; try discriminate.
-      destruct (exec_act_stk _ _ _ _ _ F1 Hr Hs E1) as [S1 R1]. eapply IH; eauto.
+      eapply IH; eauto. eapply exec_act_stk; eauto.
   Qed.
 
   Lemma dispatch_stk f : forall c g g', stk_ok g -> dispatch jsc enum D size f c g = Ok g' -> stk_ok g'.
@@ -1074,11 +1159,33 @@ Section StackInv.
     cbn [dispatch] in H.
     destruct (eval_tree D size (step_tree (reg g)) c g) as [ax| | |] eqn:Eax; cbn [obind] in H; try discriminate.
     destruct (dist_ok_state (reg g)) as [_ Hl]. specialize (Hl ax (eval_tree_in_leaves _ _ _ _ _ _ Eax)).
-    unfold leaf_dist_ok in Hl. destruct (ffold (dist (reg g), Some (reg g)) (fst ax)) as [dr1|] eqn:Ff; [|discriminate].
+    unfold leaf_dist_ok in Hl.
+    destruct (ffold (dist (reg g), RK (reg g), tight (reg g)) (fst ax)) as [[[d1 r1] z1]|] eqn:Ff; [|discriminate].
     destruct (exec_acts jsc enum (fst ax) g) as [g1| | |] eqn:Ex; cbn [obind] in H; try discriminate.
-    pose proof (exec_acts_stk _ _ _ _ _ Ff eq_refl Hs Ex) as S1.
-    destruct (snd ax); [injection H as <-; exact S1 | eapply IH; eauto | discriminate].
+    destruct Hs as [Hs1 [Hs2 Hs3]].
+    assert (J0 : J (dist (reg g), RK (reg g), tight (reg g)) g) by (repeat split; auto).
+    destruct (exec_acts_stk _ _ _ _ _ Ff J0 Ex) as (K1 & K2 & K3 & K4). cbn [fst snd] in K1, K2.
+    assert (Hfin : forall b, (dist_reg r1 <=? d1 + b) && match r1 with RK t => negb (tight t) || z1 | RPop _ => true end = true -> stk_ok g1).
+    { intros b Hb. apply andb_true_iff in Hb as [_ Hb2]. split; [exact K3|]. split; [|exact K4].
+      destruct r1 as [s|zz]; cbn [regok] in K1.
+      - rewrite K1. intros Ht. rewrite Ht in Hb2. cbn in Hb2. apply K2. exact Hb2.
+      - exact (proj2 K1). }
+    destruct (snd ax); [injection H as <-; eapply Hfin; eauto | eapply IH; [eapply Hfin; eauto | exact H] | discriminate].
   Qed.
+
+  Lemma process_event_reg ev g r : process_event ev g = Ok r -> reg (fst r) = reg g.
+  Proof.
+    unfold process_event. destruct ev as [e p].
+    destruct (evt_in e evt_beginning); [intros H; injection H as <-; reflexivity|].
+    destruct (evt_in e evt_ending).
+    { destruct (estk g) as [|[se sp] st]; [discriminate|]. destruct (pair_ok se e); [|discriminate].
+      destruct (evt_lexkind e); [|discriminate]. intros H; injection H as <-; reflexivity. }
+    destruct (evt_in e evt_single); [|discriminate].
+    destruct (evt_lexkind e); [|discriminate]. intros H; injection H as <-; reflexivity.
+  Qed.
+
+  Lemma note_lexeme_reg l g : reg (note_lexeme l g) = reg g.
+  Proof. unfold note_lexeme. destruct (lexkind_eqb (lk l) LParameter); [reflexivity|]. destruct (lexkind_eqb (lk l) LKeyword); reflexivity. Qed.
 
   Lemma process_event_sstk ev g r : process_event ev g = Ok r -> sstk (fst r) = sstk g.
   Proof.
@@ -1106,13 +1213,29 @@ Section StackInv.
       + rewrite (IH _ _ H). exact E1.
   Qed.
 
+  Lemma drain_reg m : forall g r, drain m g = Ok r -> reg (fst r) = reg g.
+  Proof.
+    induction m as [|m IH]; intros g r H.
+    - cbn in H. injection H as <-. reflexivity.
+    - cbn [drain] in H. destruct (finds g) as [|ev fs]; [discriminate|].
+      destruct (process_event ev (set_finds g fs)) as [r1| | |] eqn:Ep; cbn [obind] in H; try discriminate.
+      pose proof (process_event_reg _ _ _ Ep) as E1. cbn in E1.
+      destruct (snd r1).
+      + injection H as <-. cbn [fst]. rewrite note_lexeme_reg. exact E1.
+      + rewrite (IH _ _ H). exact E1.
+  Qed.
+
+  Lemma stk_ok_same g h : sstk h = sstk g -> reg h = reg g -> stk_ok g -> stk_ok h.
+  Proof. intros E1 E2 H. unfold stk_ok, stack_inv in *. cbn [chain] in *. rewrite E1, E2. exact H. Qed.
+
   Lemma mstep_stk g r : stk_ok g -> mstep jsc enum D size g = Ok r -> stk_ok (fst r).
   Proof.
     intros Hs H. unfold mstep in H.
     destruct (if pos g =? size then Some 0 else hd_error (rest g)) as [c|]; [|discriminate].
     destruct ((c =? 0) && negb (pos g =? size)); [discriminate|].
     destruct (dispatch jsc enum D size redo_fuel c g) as [g1| | |] eqn:Ed; cbn [obind] in H; try discriminate.
-    unfold stk_ok. rewrite (drain_sstk _ _ _ H). exact (dispatch_stk _ _ _ _ Hs Ed).
+    eapply stk_ok_same; [exact (drain_sstk _ _ _ H) | exact (drain_reg _ _ _ H) |].
+    eapply (stk_ok_same g1); [reflexivity | reflexivity | exact (dispatch_stk _ _ _ _ Hs Ed)].
   Qed.
 
   Lemma main_loop_stk f : forall g r, stk_ok g -> main_loop jsc enum D size f g = Ok r -> stk_ok (fst r).
@@ -1128,14 +1251,15 @@ Section StackInv.
   Proof.
     intros Hs H. unfold next in H. destruct (finds g) as [|ev fs]; [eapply main_loop_stk; eauto|].
     destruct (process_event ev (set_finds g fs)) as [r1| | |] eqn:Ep; cbn [obind] in H; try discriminate.
-    assert (S1 : stk_ok (fst r1)) by (unfold stk_ok; rewrite (process_event_sstk _ _ _ Ep); exact Hs).
+    assert (S1 : stk_ok (fst r1)).
+    { eapply stk_ok_same; [exact (process_event_sstk _ _ _ Ep) | exact (process_event_reg _ _ _ Ep) | exact Hs]. }
     destruct (snd r1); [injection H as <-; exact S1 | eapply main_loop_stk; eauto].
   Qed.
 
   Lemma reach_stk g acc : reach jsc enum D size g acc -> stk_ok g.
   Proof.
     induction 1 as [|g acc f g' l _ IH Hn|g acc g' _ IH _ _ Hm].
-    - constructor.
+    - split; [constructor | split; [intros _; exact I | exact I]].
     - exact (next_stk _ _ _ IH Hn).
     - exact (mstep_stk _ _ IH Hm).
   Qed.
@@ -1175,3 +1299,741 @@ Proof.
   - eapply prefix_run_reach; exact P1.
   - eapply prefix_run_reach; exact P2.
 Qed.
+
+(* ---------------------------------------------------------------------------------------------- *)
+(* 7. a whole comment line "# text" + LF inserted where a comment may start and blanks are inert *)
+
+Definition hash_leaf (s : state) : bool :=
+  match byte_leaf 35 (step_tree s) with Some (a, x) => comment_entry_leaf a x | None => false end.
+
+(* in every shift state that admits a comment, '#' reaches the comment-opening leaf through byte tests alone *)
+Lemma hash_leaf_table :
+  forallb (fun s => negb (in_states s comment_entry_states) || hash_leaf s) shift_states = true.
+Proof. vm_compute. reflexivity. Qed.
+
+Lemma in_states_complete s l : In s l -> in_states s l = true.
+Proof.
+  intros H. unfold in_states. apply existsb_exists. exists s. split; [exact H|]. unfold TriviaProofs.state_eqb. apply N.eqb_refl.
+Qed.
+
+Section CommentLine.
+  Variables jsc enum : bytes -> len_result.
+  Variable X : bytes.
+  Variable sz : N.
+
+  (* a configuration that differs from g in the state registers and the read position only *)
+  Definition mk (g : cfg) rg st p pr rs : cfg :=
+    {| reg := rg; sstk := st; pos := p; pre := pr; rest := rs; finds := finds g; estk := estk g; lastp := lastp g |}.
+
+  Lemma hash_mstep g s st p pr r :
+    In s shift_states -> In s comment_entry_states -> finds g = [] -> p < sz ->
+    mstep jsc enum X sz (mk g s st p pr (35 :: r)) = Ok (mk g StCommentStarted (s :: st) (p + 1) (35 :: pr) r, None).
+  Proof.
+    intros Hs Hc Hf Hp. unfold mstep. cbn [pos rest mk hd_error].
+    replace (p =? sz) with false by (symmetry; apply N.eqb_neq; lia). cbn [N.eqb andb].
+    change redo_fuel with (S 63). rewrite dispatch_one_step. unfold one_step. cbn [reg mk].
+    pose proof hash_leaf_table as T. rewrite forallb_forall in T. specialize (T _ Hs).
+    rewrite (in_states_complete _ _ Hc) in T. cbn [negb orb] in T. unfold hash_leaf in T.
+    destruct (byte_leaf 35 (step_tree s)) as [[acts x]|] eqn:B; [|discriminate].
+    apply comment_entry_leaf_inv in T as [-> ->].
+    rewrite (byte_leaf_eval X sz _ _ _ _ B). cbn [obind fst snd exec_acts exec_act].
+    cbn [sstk reg mk set_sstk set_reg]. cbn [obind]. unfold advance. cbn. rewrite Hf. reflexivity.
+  Qed.
+
+  Lemma plain_not_nul c : plain_comment_byte c = true -> (c =? 0) = false.
+  Proof.
+    unfold plain_comment_byte, in_set. cbn [existsb]. intros H. apply negb_true_iff in H.
+    apply orb_false_iff in H as [H0 _]. exact H0.
+  Qed.
+
+  Lemma text_mstep g rg st p pr c r :
+    plain_comment_byte c = true -> rg = StCommentStarted \/ rg = StSingleComment -> finds g = [] -> p < sz ->
+    mstep jsc enum X sz (mk g rg st p pr (c :: r)) = Ok (mk g StSingleComment st (p + 1) (c :: pr) r, None).
+  Proof.
+    intros Hc Hr Hf Hp. unfold mstep. cbn [pos rest mk hd_error].
+    replace (p =? sz) with false by (symmetry; apply N.eqb_neq; lia). rewrite (plain_not_nul _ Hc). cbn [andb].
+    change redo_fuel with (S 63). rewrite dispatch_one_step. unfold one_step. cbn [reg mk].
+    destruct single_comment_table as [_ T]. destruct (T c Hc) as [T1 T2].
+    destruct Hr as [-> | ->].
+    - rewrite (eval_tree_bytes_only X sz _ c _ (init_cfg [])) by reflexivity. rewrite T1.
+      cbn [obind fst snd exec_acts exec_act]. unfold advance. cbn. rewrite Hf. reflexivity.
+    - rewrite (eval_tree_bytes_only X sz _ c _ (init_cfg [])) by reflexivity. rewrite T2.
+      cbn [obind fst snd exec_acts exec_act]. unfold advance. cbn. rewrite Hf. reflexivity.
+  Qed.
+
+  Lemma lf_mstep g s st p pr r :
+    In s shift_states -> finds g = [] -> p < sz ->
+    mstep jsc enum X sz (mk g StSingleComment (s :: st) p pr (10 :: r)) = Ok (mk g s st (p + 1) (10 :: pr) r, None).
+  Proof.
+    intros Hs Hf Hp. unfold mstep. cbn [pos rest mk hd_error].
+    replace (p =? sz) with false by (symmetry; apply N.eqb_neq; lia). cbn [N.eqb andb].
+    change redo_fuel with (S (S 62)).
+    rewrite (line_comment_end_lemma jsc enum X sz (S 62) 10 (mk g StSingleComment (s :: st) p pr (10 :: r)) s st (or_introl eq_refl) eq_refl eq_refl).
+    rewrite dispatch_one_step. unfold one_step. cbn [reg mk set_reg set_sstk].
+    pose proof blank_leaf_table as T. rewrite forallb_forall in T. specialize (T _ Hs).
+    rewrite forallb_forall in T. specialize (T 10). unfold blank_leaf in T.
+    destruct (byte_leaf 10 (step_tree s)) as [[acts x]|] eqn:B; [|discriminate T; cbn; auto].
+    assert (T' : match acts with [] => match x with XNil => true | _ => false end | _ => false end = true)
+      by (apply T; cbn; auto).
+    destruct acts; [|discriminate]. destruct x; try discriminate.
+    rewrite (byte_leaf_eval X sz _ _ _ _ B). cbn [obind fst snd exec_acts].
+    unfold advance. cbn. rewrite Hf. reflexivity.
+  Qed.
+
+  Lemma text_reach g st acc : forall text p pr r,
+    forallb plain_comment_byte text = true -> finds g = [] -> p + N.of_nat (List.length text) <= sz ->
+    reach jsc enum X sz (mk g StSingleComment st p pr (text ++ r)) acc ->
+    reach jsc enum X sz (mk g StSingleComment st (p + N.of_nat (List.length text)) (rev text ++ pr) r) acc.
+  Proof.
+    induction text as [|c text IH]; intros p pr r Ht Hf Hp HR.
+    - cbn [List.length rev app N.of_nat] in *. rewrite N.add_0_r. exact HR.
+    - cbn [forallb] in Ht. apply andb_true_iff in Ht as [Hc Ht]. cbn [List.length] in Hp. cbn [app] in HR.
+      assert (R1 : reach jsc enum X sz (mk g StSingleComment st (p + 1) (c :: pr) (text ++ r)) acc).
+      { eapply reach_loop; [exact HR | exact Hf | cbn [pos mk]; lia |].
+        apply text_mstep; [exact Hc | right; reflexivity | exact Hf | lia]. }
+      assert (Hp2 : p + 1 + N.of_nat (List.length text) <= sz) by lia.
+      specialize (IH _ _ r Ht Hf Hp2 R1).
+      cbn [rev List.length]. rewrite <- app_assoc. cbn [app].
+      replace (p + N.of_nat (S (List.length text))) with (p + 1 + N.of_nat (List.length text)) by lia. exact IH.
+  Qed.
+
+  (* '#', at least one plain byte, LF: back in the interrupted state, only the read position has moved *)
+  Lemma comment_line_reach g acc text r :
+    In (reg g) shift_states -> In (reg g) comment_entry_states -> finds g = [] ->
+    forallb plain_comment_byte text = true -> text <> [] ->
+    rest g = (35 :: text ++ [10]) ++ r ->
+    pos g + N.of_nat (List.length (35 :: text ++ [10])) <= sz ->
+    reach jsc enum X sz g acc ->
+    reach jsc enum X sz (set_zip g (pos g + N.of_nat (List.length (35 :: text ++ [10]))) (rev (35 :: text ++ [10]) ++ pre g) r) acc.
+  Proof.
+    intros Hs Hc Hf Ht Hne Hr Hp HR.
+    destruct text as [|c text]; [contradiction|]. cbn [forallb] in Ht. apply andb_true_iff in Ht as [Hc1 Ht].
+    cbn [List.length] in Hp. rewrite app_length in Hp. cbn [List.length] in Hp.
+    assert (G0 : g = mk g (reg g) (sstk g) (pos g) (pre g) (35 :: c :: (text ++ [10] ++ r))).
+    { destruct g as [g1 g2 g3 g4 g5 g6 g7 g8]. cbn [rest] in Hr. unfold mk. cbn. rewrite Hr.
+      cbn [app]. rewrite <- app_assoc. reflexivity. }
+    rewrite G0 in HR.
+    assert (R1 : reach jsc enum X sz (mk g StCommentStarted (reg g :: sstk g) (pos g + 1) (35 :: pre g) (c :: (text ++ [10] ++ r))) acc).
+    { eapply reach_loop; [exact HR | exact Hf | cbn [pos mk]; lia | apply hash_mstep; auto; lia]. }
+    assert (R2 : reach jsc enum X sz (mk g StSingleComment (reg g :: sstk g) (pos g + 1 + 1) (c :: 35 :: pre g) (text ++ [10] ++ r)) acc).
+    { eapply reach_loop; [exact R1 | exact Hf | cbn [pos mk]; lia | apply text_mstep; auto; lia]. }
+    assert (Hp3 : pos g + 1 + 1 + N.of_nat (List.length text) <= sz) by lia.
+    pose proof (text_reach g _ acc text _ _ ([10] ++ r) Ht Hf Hp3 R2) as R3.
+    assert (R4 : reach jsc enum X sz (mk g (reg g) (sstk g) (pos g + 1 + 1 + N.of_nat (List.length text) + 1)
+                                        (10 :: rev text ++ c :: 35 :: pre g) r) acc).
+    { eapply reach_loop; [exact R3 | exact Hf | cbn [pos mk]; lia | apply lf_mstep; auto; lia]. }
+    match goal with |- reach _ _ _ _ ?h _ => replace h with
+      (mk g (reg g) (sstk g) (pos g + 1 + 1 + N.of_nat (List.length text) + 1) (10 :: rev text ++ c :: 35 :: pre g) r) end;
+      [exact R4|].
+    unfold mk, set_zip. f_equal.
+    - cbn [List.length app]. rewrite app_length. cbn [List.length]. lia.
+    - cbn [rev app]. rewrite rev_app_distr. cbn [rev app]. rewrite <- !app_assoc. reflexivity.
+  Qed.
+End CommentLine.
+
+(* any inserted bytes, total scans, the stack bound discharged *)
+Theorem insertion_shift_total_lemma jsc enum a w b g acc :
+  len_sane jsc -> len_sane enum -> Forall isb (a ++ b) -> Forall isb w ->
+  reach jsc enum (a ++ b) (N.of_nat (List.length (a ++ b))) g acc ->
+  reach jsc enum (a ++ w ++ b) (N.of_nat (List.length (a ++ w ++ b))) (moved w g) acc ->
+  pos g = N.of_nat (List.length a) -> pre g = rev a -> rest g = b -> finds g = [] -> estk g = [] ->
+  dist (reg g) = 0 ->
+  Forall (fun l => le l < N.of_nat (List.length a)) (lastp g) ->
+  exists ls,
+    fst (fst (scan jsc enum (a ++ b))) = rev acc ++ ls /\
+    fst (fst (scan jsc enum (a ++ w ++ b))) = rev acc ++ map (shL (N.of_nat (List.length w))) ls /\
+    verdict (scan jsc enum (a ++ w ++ b)) = she (N.of_nat (List.length w)) (verdict (scan jsc enum (a ++ b))).
+Proof.
+  intros S1 S2 HB HW R1 R2 Hpos Hpre Hrest Hf He Hs Hl. rewrite size_ins in R2.
+  assert (HB' : Forall isb (a ++ w ++ b)).
+  { apply Forall_app in HB as [Ha Hb]. apply Forall_app. split; [exact Ha|]. apply Forall_app. split; assumption. }
+  apply (insertion_shift_lemma jsc enum a w b g acc); try assumption.
+  - exact (reach_stk _ _ _ _ _ _ R1).
+  - pose proof (scan_total_lemma jsc enum (a ++ b) S1 S2 HB) as T. unfold scan_result, verdict in *.
+    intros E. rewrite E in T. exact T.
+  - pose proof (scan_total_lemma jsc enum (a ++ w ++ b) S1 S2 HB') as T. unfold scan_result, verdict in *.
+    intros E. rewrite E in T. exact T.
+Qed.
+
+Definition comment_line (text : bytes) : bytes := 35 :: text ++ [10].
+
+Theorem comment_line_shift_lemma jsc enum a text b g acc :
+  len_sane jsc -> len_sane enum -> Forall isb (a ++ b) -> Forall isb text ->
+  forallb plain_comment_byte text = true -> text <> [] ->
+  let w := comment_line text in
+  reach jsc enum (a ++ b) (N.of_nat (List.length (a ++ b))) g acc ->
+  reach jsc enum (a ++ w ++ b) (N.of_nat (List.length (a ++ w ++ b))) (set_zip g (pos g) (pre g) (w ++ b)) acc ->
+  pos g = N.of_nat (List.length a) -> pre g = rev a -> rest g = b -> finds g = [] -> estk g = [] ->
+  In (reg g) shift_states -> In (reg g) comment_entry_states ->
+  Forall (fun l => le l < N.of_nat (List.length a)) (lastp g) ->
+  exists ls,
+    fst (fst (scan jsc enum (a ++ b))) = rev acc ++ ls /\
+    fst (fst (scan jsc enum (a ++ w ++ b))) = rev acc ++ map (shL (N.of_nat (List.length w))) ls /\
+    verdict (scan jsc enum (a ++ w ++ b)) = she (N.of_nat (List.length w)) (verdict (scan jsc enum (a ++ b))).
+Proof.
+  intros S1 S2 HB HT Hplain Hne w R1 R2 Hpos Hpre Hrest Hf He Hs Hc Hl.
+  assert (HW : Forall isb w).
+  { unfold w, comment_line. constructor; [reflexivity|]. apply Forall_app. split; [exact HT|]. constructor; [reflexivity|constructor]. }
+  apply (insertion_shift_total_lemma jsc enum a w b g acc); try assumption; [|apply shift_state_dist; exact Hs].
+  pose proof (comment_line_reach jsc enum (a ++ w ++ b) (N.of_nat (List.length (a ++ w ++ b)))
+                (set_zip g (pos g) (pre g) (w ++ b)) acc text b Hs Hc Hf Hplain Hne eq_refl) as R3.
+  cbn [pos pre set_zip] in R3. unfold moved. rewrite Hrest. apply R3; [|exact R2].
+  rewrite Hpos, !app_length. fold (comment_line text). fold w. lia.
+Qed.
+
+(* ---------------------------------------------------------------------------------------------- *)
+(* 8. the run of the longer input up to the insertion point, when the insertion point is at the start of a line and
+      no call of the schema library made before it looked beyond it *)
+
+(* the calls of the schema library (false = readSchemaWithJsc, true = the enum reader; the text handed over) made by
+   the run, in order *)
+Section Calls.
+  Variables jsc enum : bytes -> len_result.
+  Variable D : bytes.
+  Variable size : N.
+
+  Definition call : Set := (bool * bytes)%type.
+
+  Definition act_calls (x : act) (h : cfg) : list call :=
+    match x with AReadSchema => [(false, rest h)] | AReadEnum => [(true, rest h)] | _ => [] end.
+
+  Fixpoint acts_calls (l : list act) (h : cfg) : list call :=
+    match l with
+    | [] => []
+    | x :: r => act_calls x h ++ match exec_act jsc enum x h with Ok h1 => acts_calls r h1 | _ => [] end
+    end.
+
+  Fixpoint dispatch_calls (fuel : nat) (c : N) (h : cfg) : list call :=
+    match fuel with
+    | O => []
+    | S f =>
+      match eval_tree D size (step_tree (reg h)) c h with
+      | Ok ax =>
+        acts_calls (fst ax) h ++
+        match exec_acts jsc enum (fst ax) h with
+        | Ok h1 => match snd ax with XRedo => dispatch_calls f c h1 | _ => [] end
+        | _ => []
+        end
+      | _ => []
+      end
+    end.
+
+  Definition mstep_calls (h : cfg) : list call :=
+    match (if pos h =? size then Some 0 else hd_error (rest h)) with
+    | Some c => if (c =? 0) && negb (pos h =? size) then [] else dispatch_calls redo_fuel c h
+    | None => []
+    end.
+
+  Fixpoint run_to_calls (stop : N) (fuel : nat) (h : cfg) : list call :=
+    match fuel with
+    | O => []
+    | S f =>
+      match finds h with
+      | [] =>
+        if pos h =? stop then []
+        else if pos h <=? size then
+          mstep_calls h ++ match mstep jsc enum D size h with Ok (h', _) => run_to_calls stop f h' | _ => [] end
+        else []
+      | ev :: fs =>
+        match process_event ev (set_finds h fs) with
+        | Ok (h', Some _) => run_to_calls stop f h'
+        | _ => []
+        end
+      end
+    end.
+
+  Lemma run_to_fuel stop f : forall m h acc r,
+    run_to jsc enum D size stop f h acc = Some r -> run_to jsc enum D size stop (f + m) h acc = Some r.
+  Proof.
+    induction f as [|f IH]; intros m h acc r H; [discriminate|].
+    cbn [run_to Nat.add] in *. destruct (finds h) as [|ev fs].
+    - destruct (pos h =? stop); [exact H|]. destruct (pos h <=? size); [|discriminate].
+      destruct (mstep jsc enum D size h) as [[h' [l|]]| | |]; try discriminate; apply IH; exact H.
+    - destruct (process_event ev (set_finds h fs)) as [[h' [l|]]| | |]; try discriminate. apply IH; exact H.
+  Qed.
+End Calls.
+
+Definition prefix_calls jsc enum (D : bytes) (stop : N) : list call :=
+  run_to_calls jsc enum D (N.of_nat (List.length D)) stop (scan_fuel D) (init_cfg D).
+
+Lemma take_until_lf_app r y : In 10 r -> take_until_lf (r ++ y) = take_until_lf r.
+Proof.
+  induction r as [|c r IH]; intros H; [contradiction|]. cbn [app take_until_lf].
+  destruct (c =? 10) eqn:E; [reflexivity|]. f_equal. apply IH. destruct H as [H|H]; [|exact H].
+  subst c. discriminate.
+Qed.
+
+Section Prefix.
+  Variables jsc enum : bytes -> len_result.
+  Variables a w b : bytes.
+
+  Local Notation D := (a ++ b).
+  Local Notation D' := (a ++ w ++ b).
+  Local Notation n := (N.of_nat (List.length a)).
+  Local Notation k := (N.of_nat (List.length w)).
+  Local Notation size := (N.of_nat (List.length (a ++ b))).
+
+  (* the insertion point is at the start of a line *)
+  Definition line_start : Prop := a = [] \/ exists a0, a = a0 ++ [10].
+
+  (* a call that did not look beyond the insertion point: the same answer with the bytes inserted, and a body that
+     ends before the insertion point *)
+  Definition local_call (c : call) : Prop :=
+    let f := if fst c then enum else jsc in
+    let s := snd c in
+    let r := firstn (List.length s - List.length b) s in
+    f (r ++ w ++ b) = f s /\ forall m, f s = LenOk m -> m + N.of_nat (List.length b) <= N.of_nat (List.length s).
+
+  Definition setrest (h : cfg) (s : bytes) : cfg := set_zip h (pos h) (pre h) s.
+
+  Definition before (h : cfg) : Prop :=
+    Forall (fun e => snd e < n) (finds h) /\ Forall (fun e => snd e < n) (estk h) /\ Forall (fun l => le l < n) (lastp h).
+
+  (* the two runs before the insertion point: the same configuration but for the text ahead; r = what is left of a *)
+  Record P (r : bytes) (h h' : cfg) : Prop := {
+    P_eq : h' = setrest h (r ++ w ++ b);
+    P_rest : rest h = r ++ b;
+    P_a : a = rev (pre h) ++ r;
+    P_pos : N.of_nat (List.length (pre h)) = pos h;
+    P_before : before h
+  }.
+
+  Lemma P_pos_r r h h' : P r h h' -> pos h + N.of_nat (List.length r) = n.
+  Proof. intros [_ _ A L _]. apply (f_equal (@List.length N)) in A. rewrite app_length, rev_length in A. lia. Qed.
+
+  Lemma suffix_lf r p : line_start -> a = p ++ r -> r <> [] -> In 10 r.
+  Proof.
+    intros [E|[a0 E]] A Hr.
+    - rewrite E in A. destruct p, r; try discriminate. contradiction.
+    - destruct (exists_last Hr) as (r0 & x & ->). rewrite E, app_assoc in A. apply app_inj_tail in A as [_ <-].
+      apply in_or_app. right. left. reflexivity.
+  Qed.
+
+  Lemma values_before ls : Forall (fun l => le l < n) ls -> values D' (size' size k) ls = values D size ls.
+  Proof.
+    induction 1 as [|l ls Hl _ IH]; [reflexivity|]. cbn [values]. rewrite IH, (lex_value_lo a w b l Hl). reflexivity.
+  Qed.
+
+  Hypothesis Hline : line_start.
+
+  Lemma eval_cond_pre r h h' q c : P r h h' -> r <> [] ->
+    eval_cond D' (size' size k) q c h' = eval_cond D size q c h.
+  Proof.
+    intros HP Hr. pose proof (P_pos_r _ _ _ HP) as Hn. destruct HP as [E R A L (B1 & B2 & B3)]. subst h'.
+    assert (Hs : n <= size) by (rewrite app_length; lia).
+    assert (Hlt : (size <? pos h) = false) by (apply N.ltb_ge; lia).
+    assert (Hlt' : (size' size k <? pos h) = false) by (apply N.ltb_ge; unfold size'; lia).
+    destruct q as [l| | | | |x]; cbn [eval_cond lastp pre pos setrest set_zip].
+    - reflexivity.
+    - unfold is_directive_at. cbn [pos rest setrest set_zip]. rewrite Hlt, Hlt', R.
+      rewrite !(take_until_lf_app r) by (eapply suffix_lf; eauto). reflexivity.
+    - rewrite (values_before _ B3). reflexivity.
+    - rewrite (values_before _ B3). reflexivity.
+    - rewrite (values_before _ B3). reflexivity.
+    - rewrite Hlt, Hlt'. reflexivity.
+  Qed.
+
+  Lemma eval_tree_pre r h h' t c : P r h h' -> r <> [] ->
+    eval_tree D' (size' size k) t c h' = eval_tree D size t c h.
+  Proof.
+    intros HP Hr. induction t as [acts x | q t1 IH1 t2 IH2]; [reflexivity|]. cbn [eval_tree].
+    rewrite (eval_cond_pre _ _ _ q c HP Hr). destruct (eval_cond D size q c h) as [v| | |]; cbn [obind]; try reflexivity.
+    destruct v; assumption.
+  Qed.
+
+  Definition Pn (h h' : cfg) : Prop := exists r, P r h h' /\ r <> [].
+
+  Lemma firstn_skipn_rev (l : bytes) m : rev (skipn m l) ++ rev (firstn m l) = rev l.
+  Proof. rewrite <- rev_app_distr, firstn_skipn. reflexivity. Qed.
+
+  Lemma read_pre f (kind : bool) r h h' :
+    (if kind then enum else jsc) = f -> P r h h' -> r <> [] -> local_call (kind, rest h) ->
+    orel 0 Pn (read_body f h) (read_body f h').
+  Proof.
+    intros Hk HP Hr [L1 L2]. cbn [fst snd] in L1, L2. rewrite Hk in L1, L2.
+    pose proof (P_pos_r _ _ _ HP) as Hn. destruct HP as [E R A L B]. subst h'.
+    rewrite R in L1, L2. rewrite app_length in L1, L2.
+    replace (List.length r + List.length b - List.length b)%nat with (List.length r) in L1 by lia.
+    rewrite firstn_app, firstn_all, PeanoNat.Nat.sub_diag in L1. cbn [firstn] in L1. rewrite app_nil_r in L1.
+    unfold read_body. cbn [rest pos setrest set_zip]. rewrite L1, R.
+    destruct (f (r ++ b)) as [m|p msg] eqn:Ef; cbn [orel]; [|split; [lia | reflexivity]].
+    specialize (L2 m eq_refl).
+    destruct (0 <? m) eqn:Em.
+    - apply N.ltb_lt in Em. exists (skipn (N.to_nat (m - 1)) r). split.
+      + unfold advance, setrest. cbn [pos pre rest set_zip]. rewrite R, !fwd_eq. cbn [fst snd set_zip pos pre rest].
+        assert (Hm : (N.to_nat (m - 1) <= List.length r)%nat) by lia.
+        assert (F1 : forall y, firstn (N.to_nat (m - 1)) (r ++ y) = firstn (N.to_nat (m - 1)) r).
+        { intros y. rewrite firstn_app. replace (N.to_nat (m - 1) - List.length r)%nat with 0%nat by lia.
+          cbn [firstn]. apply app_nil_r. }
+        assert (F2 : forall y, skipn (N.to_nat (m - 1)) (r ++ y) = skipn (N.to_nat (m - 1)) r ++ y).
+        { intros y. rewrite skipn_app. replace (N.to_nat (m - 1) - List.length r)%nat with 0%nat by lia. reflexivity. }
+        rewrite !F1, !F2.
+        split; cbn [pos pre rest set_zip reg sstk finds estk lastp].
+        * reflexivity.
+        * reflexivity.
+        * rewrite rev_app_distr, rev_involutive, <- app_assoc, firstn_skipn. exact A.
+        * rewrite app_length, rev_length, firstn_length. lia.
+        * exact B.
+      + intros E0. apply (f_equal (@List.length N)) in E0. rewrite skipn_length in E0. cbn in E0. lia.
+    - exists r. split; [|exact Hr]. split; auto.
+  Qed.
+
+  Lemma exec_act_pre x h h' : Pn h h' -> Forall local_call (act_calls x h) ->
+    orel 0 Pn (exec_act jsc enum x h) (exec_act jsc enum x h').
+  Proof.
+    intros (r & HP & Hr) Hc. pose proof (P_pos_r _ _ _ HP) as Hn.
+    assert (Hrl : (0 < List.length r)%nat) by (destruct r; [contradiction | cbn; lia]).
+    destruct x as [back e|s|s| | |m| |]; cbn [exec_act act_calls] in *.
+    - destruct HP as [E R A L (B1 & B2 & B3)]. subst h'. cbn [pos finds setrest set_zip].
+      destruct (pos h <? back) eqn:Eb; cbn [orel]; [reflexivity|]. apply N.ltb_ge in Eb.
+      exists r. split; [|exact Hr]. split; auto. split; [|split; assumption]. cbn [finds set_finds].
+      apply Forall_app. split; [exact B1|]. constructor; [cbn; lia | constructor].
+    - destruct HP as [E R A L B]. subst h'. cbn [orel]. exists r. split; [|exact Hr]. split; auto.
+    - destruct HP as [E R A L B]. subst h'. cbn [orel]. exists r. split; [|exact Hr]. split; auto.
+    - destruct HP as [E R A L B]. subst h'. cbn [orel]. exists r. split; [|exact Hr]. split; auto.
+    - destruct HP as [E R A L B]. subst h'. cbn [sstk setrest set_zip]. destruct (sstk h) as [|s st]; cbn [orel]; [reflexivity|].
+      exists r. split; [|exact Hr]. split; auto.
+    - destruct HP as [E R A L B]. subst h'. cbn [pos setrest set_zip].
+      destruct (pos h <? m) eqn:Em; cbn [orel]; [reflexivity|]. apply N.ltb_ge in Em.
+      assert (Hm : (N.to_nat m <= List.length (pre h))%nat) by lia.
+      exists (rev (firstn (N.to_nat m) (pre h)) ++ r). split.
+      + unfold retreat, setrest. cbn [pos pre rest set_zip]. rewrite R, !fwd_eq. cbn [fst snd].
+        split; cbn [pos pre rest set_zip reg sstk finds estk lastp].
+        * rewrite <- app_assoc. reflexivity.
+        * rewrite <- app_assoc. reflexivity.
+        * rewrite app_assoc, firstn_skipn_rev. exact A.
+        * rewrite skipn_length. lia.
+        * exact B.
+      + intros E0. apply app_eq_nil in E0 as [_ E0]. contradiction.
+    - inversion Hc as [|? ? Hc1 _]; subst. apply (read_pre jsc false r h h' eq_refl HP Hr Hc1).
+    - inversion Hc as [|? ? Hc1 _]; subst. apply (read_pre enum true r h h' eq_refl HP Hr Hc1).
+  Qed.
+
+  Lemma exec_acts_pre acts : forall h h', Pn h h' -> Forall local_call (acts_calls jsc enum acts h) ->
+    orel 0 Pn (exec_acts jsc enum acts h) (exec_acts jsc enum acts h').
+  Proof.
+    induction acts as [|x acts IH]; intros h h' HP Hc; [exact HP|].
+    cbn [acts_calls] in Hc. apply Forall_app in Hc as [Hc1 Hc2]. cbn [exec_acts].
+    pose proof (exec_act_pre x h h' HP Hc1) as H1.
+    destruct (exec_act jsc enum x h) as [h1| | |], (exec_act jsc enum x h') as [h1'| | |]; cbn [orel obind] in *;
+      try contradiction; auto.
+  Qed.
+
+  Lemma dispatch_pre f : forall c h h', Pn h h' -> Forall local_call (dispatch_calls jsc enum D size f c h) ->
+    orel 0 Pn (dispatch jsc enum D size f c h) (dispatch jsc enum D' (size' size k) f c h').
+  Proof.
+    induction f as [|f IH]; intros c h h' HP Hc; [exact I|].
+    cbn [dispatch dispatch_calls] in *. destruct HP as (r & HP & Hr).
+    assert (Er : reg h' = reg h) by (rewrite (P_eq _ _ _ HP); reflexivity). rewrite Er.
+    rewrite (eval_tree_pre _ _ _ _ c HP Hr).
+    destruct (eval_tree D size (step_tree (reg h)) c h) as [ax|p0 e0| |] eqn:Eax; cbn [obind orel]; auto;
+      [|exfalso; eapply eval_tree_not_err; eauto].
+    apply Forall_app in Hc as [Hc1 Hc2].
+    pose proof (exec_acts_pre (fst ax) h h' (ex_intro _ r (conj HP Hr)) Hc1) as H1.
+    destruct (exec_acts jsc enum (fst ax) h) as [h1| | |], (exec_acts jsc enum (fst ax) h') as [h1'| | |];
+      cbn [orel obind] in *; try contradiction; auto.
+    destruct (snd ax) as [| |e]; cbn [orel].
+    - exact H1.
+    - apply IH; assumption.
+    - destruct H1 as (r1 & H1 & _). rewrite (P_eq _ _ _ H1). cbn. split; [lia | reflexivity].
+  Qed.
+
+  (* lexeme events: the text ahead plays no part *)
+  Lemma process_event_rest ev h s :
+    process_event ev (setrest h s) =
+    match process_event ev h with Ok q => Ok (setrest (fst q) s, snd q) | Err p e => Err p e | Panic x => Panic x | OutOfFuel => OutOfFuel end.
+  Proof.
+    unfold process_event. destruct ev as [e p]. cbn [estk pos setrest set_zip].
+    destruct (evt_in e evt_beginning); [reflexivity|].
+    destruct (evt_in e evt_ending).
+    { destruct (estk h) as [|[se sp] st]; [reflexivity|]. destruct (pair_ok se e); [|reflexivity].
+      destruct (evt_lexkind e); reflexivity. }
+    destruct (evt_in e evt_single); [|reflexivity]. destruct (evt_lexkind e); reflexivity.
+  Qed.
+
+  Lemma note_lexeme_rest l h s : note_lexeme l (setrest h s) = setrest (note_lexeme l h) s.
+  Proof. unfold note_lexeme. destruct (lexkind_eqb (lk l) LParameter); [reflexivity|]. destruct (lexkind_eqb (lk l) LKeyword); reflexivity. Qed.
+
+  Lemma drain_rest m : forall h s,
+    drain m (setrest h s) =
+    match drain m h with Ok q => Ok (setrest (fst q) s, snd q) | Err p e => Err p e | Panic x => Panic x | OutOfFuel => OutOfFuel end.
+  Proof.
+    induction m as [|m IH]; intros h s; [reflexivity|]. cbn [drain]. cbn [finds setrest set_zip].
+    destruct (finds h) as [|ev fs]; [reflexivity|].
+    change (set_finds (setrest h s) fs) with (setrest (set_finds h fs) s).
+    rewrite process_event_rest.
+    destruct (process_event ev (set_finds h fs)) as [q| | |]; cbn [obind]; try reflexivity. cbn [fst snd].
+    destruct (snd q); [rewrite note_lexeme_rest; reflexivity | apply IH].
+  Qed.
+
+  (* ... and keeps the read position; positions before n stay before n *)
+  Definition frame (h q : cfg) : Prop := pos q = pos h /\ pre q = pre h /\ rest q = rest h.
+
+  Lemma process_event_frame ev h q :
+    process_event ev h = Ok q -> snd ev < n -> before h ->
+    frame h (fst q) /\ before (fst q) /\ finds (fst q) = finds h /\ (forall l, snd q = Some l -> le l < n).
+  Proof.
+    unfold process_event. destruct ev as [e p]. cbn [snd]. intros H Hp (B1 & B2 & B3).
+    destruct (evt_in e evt_beginning).
+    { injection H as <-. cbn. repeat split; auto; try discriminate. constructor; assumption. }
+    destruct (evt_in e evt_ending).
+    { destruct (estk h) as [|[se sp] st] eqn:Es; [discriminate|]. destruct (pair_ok se e); [|discriminate].
+      destruct (evt_lexkind e) as [kd|]; [|discriminate]. injection H as <-. cbn. repeat split; auto.
+      - inversion B2; assumption.
+      - intros l Hl. injection Hl as <-. exact Hp. }
+    destruct (evt_in e evt_single); [|discriminate]. destruct (evt_lexkind e) as [kd|]; [|discriminate].
+    injection H as <-. cbn. repeat split; auto. intros l Hl. injection Hl as <-. exact Hp.
+  Qed.
+
+  Lemma note_lexeme_frame l h : le l < n -> before h -> frame h (note_lexeme l h) /\ before (note_lexeme l h) /\ finds (note_lexeme l h) = finds h.
+  Proof.
+    intros Hl (B1 & B2 & B3). unfold note_lexeme.
+    destruct (lexkind_eqb (lk l) LParameter); [|destruct (lexkind_eqb (lk l) LKeyword)]; cbn; repeat split; auto;
+      try (apply Forall_app; split; [exact B3|]; constructor; [exact Hl | constructor]); try constructor.
+  Qed.
+
+  Lemma drain_frame m : forall h q, drain m h = Ok q -> before h -> frame h (fst q) /\ before (fst q).
+  Proof.
+    induction m as [|m IH]; intros h q H B.
+    - cbn in H. injection H as <-. cbn [fst]. split; [repeat split | exact B].
+    - cbn [drain] in H. destruct (finds h) as [|ev fs] eqn:Ef; [discriminate|].
+      destruct (process_event ev (set_finds h fs)) as [q1| | |] eqn:Ep; cbn [obind] in H; try discriminate.
+      assert (B' : before (set_finds h fs)).
+      { destruct B as (B1 & B2 & B3). rewrite Ef in B1. inversion B1; subst. repeat split; assumption. }
+      assert (Hev : snd ev < n) by (destruct B as (B1 & _); rewrite Ef in B1; inversion B1; assumption).
+      destruct (process_event_frame _ _ _ Ep Hev B') as (F1 & B1 & _ & L1).
+      destruct (snd q1) as [l|] eqn:Sq.
+      + injection H as <-. cbn [fst]. destruct (note_lexeme_frame l (fst q1) (L1 l eq_refl) B1) as ((a1 & a2 & a3) & N2 & _).
+        destruct F1 as (b1 & b2 & b3). cbn in b1, b2, b3. split; [|exact N2]. repeat split; congruence.
+      + destruct (IH _ _ H B1) as ((a1 & a2 & a3) & B2). destruct F1 as (b1 & b2 & b3). cbn in b1, b2, b3.
+        split; [|exact B2]. repeat split; congruence.
+  Qed.
+
+  Lemma P_frame r h q s : P r h (setrest h s) -> frame h q -> before q -> P r q (setrest q (r ++ w ++ b)).
+  Proof.
+    intros [E R A L _] (a1 & a2 & a3) B. split; auto; rewrite ?a1, ?a2, ?a3; assumption.
+  Qed.
+
+  (* one turn of the byte loop before the insertion point *)
+  Definition Q (q q' : cfg * option lexeme) : Prop := (exists r, P r (fst q) (fst q')) /\ snd q' = snd q.
+
+  Lemma mstep_pre h h' : Pn h h' -> Forall local_call (mstep_calls jsc enum D size h) ->
+    orel 0 Q (mstep jsc enum D size h) (mstep jsc enum D' (size' size k) h').
+  Proof.
+    intros (r & HP & Hr) Hc. pose proof (P_pos_r _ _ _ HP) as Hn.
+    assert (Hrl : (0 < List.length r)%nat) by (destruct r; [contradiction | cbn; lia]).
+    assert (Hs : n <= size) by (rewrite app_length; lia).
+    unfold mstep, mstep_calls in *.
+    assert (E1 : pos h' = pos h) by (rewrite (P_eq _ _ _ HP); reflexivity).
+    assert (E2 : hd_error (rest h') = hd_error (rest h)).
+    { rewrite (P_eq _ _ _ HP), (P_rest _ _ _ HP). cbn [rest setrest set_zip]. destruct r; [contradiction | reflexivity]. }
+    rewrite E1, E2.
+    replace (pos h =? size' size k) with false by (symmetry; apply N.eqb_neq; unfold size'; lia).
+    replace (pos h =? size) with false in * by (symmetry; apply N.eqb_neq; lia).
+    destruct (hd_error (rest h)) as [c|]; cbn [orel]; [|reflexivity].
+    rewrite andb_true_r in *. destruct (c =? 0); cbn [orel]; [split; [lia | reflexivity]|].
+    eapply orel_bind; [apply dispatch_pre; [exists r; split; assumption | exact Hc]|].
+    intros h1 h1' (r1 & H1 & Hr1).
+    (* the byte just handled *)
+    destruct r1 as [|c1 r1]; [contradiction|].
+    assert (H2 : P r1 (advance h1 1) (advance h1' 1)).
+    { destruct H1 as [E R A L B]. subst h1'. unfold advance, setrest. cbn [pos pre rest set_zip]. rewrite R.
+      change (N.to_nat 1) with 1%nat. cbn [app fwd fst snd].
+      split; cbn [pos pre rest set_zip reg sstk finds estk lastp]; auto.
+      - cbn [rev]. rewrite <- app_assoc. exact A.
+      - cbn [List.length]. lia. }
+    assert (E3 : advance h1' 1 = setrest (advance h1 1) (r1 ++ w ++ b)) by exact (P_eq _ _ _ H2).
+    rewrite E3. cbn [finds setrest set_zip]. rewrite drain_rest.
+    destruct (drain (List.length (finds (advance h1 1))) (advance h1 1)) as [q| | |] eqn:Ed; cbn [orel]; auto;
+      [|split; [lia | reflexivity]].
+    destruct (drain_frame _ _ _ Ed (P_before _ _ _ H2)) as (F & B).
+    split; [|reflexivity]. exists r1. cbn [fst]. rewrite E3 in H2. eapply P_frame; eauto.
+  Qed.
+
+  (* the run up to the insertion point *)
+  Lemma run_to_pre f : forall h h' acc g acc1 r,
+    P r h h' -> Forall local_call (run_to_calls jsc enum D size n f h) ->
+    run_to jsc enum D size n f h acc = Some (g, acc1) ->
+    run_to jsc enum D' (size' size k) n f h' acc = Some (setrest g (w ++ b), acc1) /\
+    pos g = n /\ pre g = rev a /\ rest g = b /\ finds g = [] /\ Forall (fun l => le l < n) (lastp g).
+  Proof.
+    induction f as [|f IH]; intros h h' acc g acc1 r HP Hc H; [discriminate|].
+    cbn [run_to run_to_calls] in *. pose proof (P_pos_r _ _ _ HP) as Hn.
+    assert (Ef : finds h' = finds h) by (rewrite (P_eq _ _ _ HP); reflexivity).
+    assert (Ep : pos h' = pos h) by (rewrite (P_eq _ _ _ HP); reflexivity).
+    assert (Hs : n <= size) by (rewrite app_length; lia).
+    rewrite Ef, Ep. destruct (finds h) as [|ev fs] eqn:Efh.
+    - destruct (pos h =? n) eqn:En.
+      + injection H as <- <-. apply N.eqb_eq in En.
+        assert (r = []) as -> by (destruct r; [reflexivity | cbn in Hn; lia]).
+        destruct HP as [E R A L (B1 & B2 & B3)]. split; [rewrite E; reflexivity|].
+        rewrite app_nil_r in A. repeat split; auto. rewrite A, rev_involutive. reflexivity.
+      + apply N.eqb_neq in En. assert (Hr : r <> []) by (intros ->; cbn in Hn; lia).
+        replace (pos h <=? size' size k) with true by (symmetry; apply N.leb_le; unfold size'; lia).
+        replace (pos h <=? size) with true in * by (symmetry; apply N.leb_le; lia).
+        apply Forall_app in Hc as [Hc1 Hc2].
+        pose proof (mstep_pre h h' (ex_intro _ r (conj HP Hr)) Hc1) as HM.
+        destruct (mstep jsc enum D size h) as [[h2 ol]| | |], (mstep jsc enum D' (size' size k) h') as [[h2' ol']| | |];
+          cbn [orel] in HM; try contradiction; try discriminate.
+        destruct HM as ((r2 & H2) & Eo). cbn [fst snd] in H2, Eo. subst ol'.
+        destruct ol as [l|]; eapply IH; eauto.
+    - destruct HP as [E R A L B]. subst h'.
+      change (set_finds (setrest h (r ++ w ++ b)) fs) with (setrest (set_finds h fs) (r ++ w ++ b)).
+      rewrite process_event_rest.
+      destruct (process_event ev (set_finds h fs)) as [[h2 [l|]]| | |] eqn:Epe; try discriminate. cbn [fst snd].
+      assert (B' : before (set_finds h fs)).
+      { destruct B as (B1 & B2 & B3). rewrite Efh in B1. inversion B1; subst. repeat split; assumption. }
+      assert (Hev : snd ev < n) by (destruct B as (B1 & _); rewrite Efh in B1; inversion B1; assumption).
+      destruct (process_event_frame _ _ _ Epe Hev B') as ((a1 & a2 & a3) & B2 & _).
+      cbn in a1, a2, a3. eapply IH; [|exact Hc|exact H].
+      split; auto; rewrite ?a1, ?a2, ?a3; assumption.
+  Qed.
+
+  Theorem prefix_run_ins_lemma g acc :
+    prefix_run jsc enum D n = Some (g, acc) ->
+    Forall local_call (prefix_calls jsc enum D n) ->
+    prefix_run jsc enum D' n = Some (setrest g (w ++ b), acc) /\
+    pos g = n /\ pre g = rev a /\ rest g = b /\ finds g = [] /\ Forall (fun l => le l < n) (lastp g).
+  Proof.
+    unfold prefix_run, prefix_calls. intros H Hc.
+    assert (P0 : P a (init_cfg D) (init_cfg D')).
+    { split; try reflexivity. repeat split; constructor. }
+    destruct (run_to_pre _ _ _ _ _ _ _ P0 Hc H) as (R & Rest). split; [|exact Rest].
+    rewrite size_ins. unfold scan_fuel. rewrite (app_length a (w ++ b)), (app_length w b), (app_length a b).
+    replace (42 * (List.length a + (List.length w + List.length b)) + 512)%nat
+      with (42 * (List.length a + List.length b) + 512 + 42 * List.length w)%nat by lia.
+    apply run_to_fuel. unfold scan_fuel in R. rewrite (app_length a b) in R. exact R.
+  Qed.
+End Prefix.
+
+(* ---------------------------------------------------------------------------------------------- *)
+(* 9. insertion at the start of a line: no premise about the run of the longer input *)
+
+Theorem blanks_at_line_start_shift_lemma jsc enum a w b g acc :
+  len_sane jsc -> len_sane enum -> Forall isb (a ++ b) -> Forall blank w ->
+  line_start a ->
+  prefix_run jsc enum (a ++ b) (N.of_nat (List.length a)) = Some (g, acc) ->
+  Forall (local_call jsc enum w b) (prefix_calls jsc enum (a ++ b) (N.of_nat (List.length a))) ->
+  estk g = [] -> In (reg g) shift_states ->
+  exists ls,
+    fst (fst (scan jsc enum (a ++ b))) = rev acc ++ ls /\
+    fst (fst (scan jsc enum (a ++ w ++ b))) = rev acc ++ map (shL (N.of_nat (List.length w))) ls /\
+    verdict (scan jsc enum (a ++ w ++ b)) = she (N.of_nat (List.length w)) (verdict (scan jsc enum (a ++ b))).
+Proof.
+  intros S1 S2 HB Hw Hl P1 Hc He Hs.
+  destruct (prefix_run_ins_lemma jsc enum a w b Hl g acc P1 Hc) as (P2 & Hpos & Hpre & Hrest & Hf & Hlast).
+  apply (blank_insertion_shift_run_final_lemma jsc enum a w b g acc); assumption.
+Qed.
+
+Theorem comment_line_at_line_start_shift_lemma jsc enum a text b g acc :
+  len_sane jsc -> len_sane enum -> Forall isb (a ++ b) -> Forall isb text ->
+  forallb plain_comment_byte text = true -> text <> [] ->
+  line_start a ->
+  let w := comment_line text in
+  prefix_run jsc enum (a ++ b) (N.of_nat (List.length a)) = Some (g, acc) ->
+  Forall (local_call jsc enum w b) (prefix_calls jsc enum (a ++ b) (N.of_nat (List.length a))) ->
+  estk g = [] -> In (reg g) shift_states -> In (reg g) comment_entry_states ->
+  exists ls,
+    fst (fst (scan jsc enum (a ++ b))) = rev acc ++ ls /\
+    fst (fst (scan jsc enum (a ++ w ++ b))) = rev acc ++ map (shL (N.of_nat (List.length w))) ls /\
+    verdict (scan jsc enum (a ++ w ++ b)) = she (N.of_nat (List.length w)) (verdict (scan jsc enum (a ++ b))).
+Proof.
+  intros S1 S2 HB HT Hplain Hne Hl w P1 Hc He Hs Hce.
+  destruct (prefix_run_ins_lemma jsc enum a w b Hl g acc P1 Hc) as (P2 & Hpos & Hpre & Hrest & Hf & Hlast).
+  apply (comment_line_shift_lemma jsc enum a text b g acc); try assumption.
+  - eapply prefix_run_reach; exact P1.
+  - eapply prefix_run_reach; exact P2.
+Qed.
+
+(* removal: the same equalities read from the longer input to the shorter one *)
+Definition unL (k : N) (l : lexeme) : lexeme := {| lk := lk l; lb := lb l - k; le := le l - k |}.
+Definition une (k : N) (e : scan_end) : scan_end := match e with SErr p x => SErr (p - k) x | _ => e end.
+
+Lemma shift_back k (L L' pre0 : list lexeme) (v v' : scan_end) :
+  (exists ls, L = pre0 ++ ls /\ L' = pre0 ++ map (shL k) ls /\ v' = she k v) ->
+  exists ls', L' = pre0 ++ ls' /\ L = pre0 ++ map (unL k) ls' /\ v = une k v'.
+Proof.
+  intros (ls & A & B & C). exists (map (shL k) ls). split; [exact B|]. split.
+  - rewrite A. f_equal. rewrite map_map. rewrite <- (map_id ls) at 1. apply map_ext.
+    intros [kd x y]. unfold unL, shL. cbn. f_equal; lia.
+  - rewrite C. destruct v; cbn; try reflexivity. f_equal. lia.
+Qed.
+
+Theorem blanks_removal_lemma jsc enum a w b g acc :
+  len_sane jsc -> len_sane enum -> Forall isb (a ++ b) -> Forall blank w ->
+  reach jsc enum (a ++ b) (N.of_nat (List.length (a ++ b))) g acc ->
+  reach jsc enum (a ++ w ++ b) (N.of_nat (List.length (a ++ w ++ b))) (set_zip g (pos g) (pre g) (w ++ b)) acc ->
+  pos g = N.of_nat (List.length a) -> pre g = rev a -> rest g = b -> finds g = [] -> estk g = [] ->
+  In (reg g) shift_states ->
+  Forall (fun l => le l < N.of_nat (List.length a)) (lastp g) ->
+  exists ls',
+    fst (fst (scan jsc enum (a ++ w ++ b))) = rev acc ++ ls' /\
+    fst (fst (scan jsc enum (a ++ b))) = rev acc ++ map (unL (N.of_nat (List.length w))) ls' /\
+    verdict (scan jsc enum (a ++ b)) = une (N.of_nat (List.length w)) (verdict (scan jsc enum (a ++ w ++ b))).
+Proof. intros. apply shift_back. apply (blank_insertion_shift_final_lemma jsc enum a w b g acc); assumption. Qed.
+
+Theorem blanks_removal_at_line_start_lemma jsc enum a w b g acc :
+  len_sane jsc -> len_sane enum -> Forall isb (a ++ b) -> Forall blank w ->
+  line_start a ->
+  prefix_run jsc enum (a ++ b) (N.of_nat (List.length a)) = Some (g, acc) ->
+  Forall (local_call jsc enum w b) (prefix_calls jsc enum (a ++ b) (N.of_nat (List.length a))) ->
+  estk g = [] -> In (reg g) shift_states ->
+  exists ls',
+    fst (fst (scan jsc enum (a ++ w ++ b))) = rev acc ++ ls' /\
+    fst (fst (scan jsc enum (a ++ b))) = rev acc ++ map (unL (N.of_nat (List.length w))) ls' /\
+    verdict (scan jsc enum (a ++ b)) = une (N.of_nat (List.length w)) (verdict (scan jsc enum (a ++ w ++ b))).
+Proof. intros. apply shift_back. apply (blanks_at_line_start_shift_lemma jsc enum a w b g acc); assumption. Qed.
+
+Theorem comment_line_removal_at_line_start_lemma jsc enum a text b g acc :
+  len_sane jsc -> len_sane enum -> Forall isb (a ++ b) -> Forall isb text ->
+  forallb plain_comment_byte text = true -> text <> [] ->
+  line_start a ->
+  let w := comment_line text in
+  prefix_run jsc enum (a ++ b) (N.of_nat (List.length a)) = Some (g, acc) ->
+  Forall (local_call jsc enum w b) (prefix_calls jsc enum (a ++ b) (N.of_nat (List.length a))) ->
+  estk g = [] -> In (reg g) shift_states -> In (reg g) comment_entry_states ->
+  exists ls',
+    fst (fst (scan jsc enum (a ++ w ++ b))) = rev acc ++ ls' /\
+    fst (fst (scan jsc enum (a ++ b))) = rev acc ++ map (unL (N.of_nat (List.length w))) ls' /\
+    verdict (scan jsc enum (a ++ b)) = une (N.of_nat (List.length w)) (verdict (scan jsc enum (a ++ w ++ b))).
+Proof. intros. apply shift_back. apply (comment_line_at_line_start_shift_lemma jsc enum a text b g acc); assumption. Qed.
+
+(* non-vacuity: "JSIGHT 0.3 / URL /a / GET" with the line "# note" inserted before GET; the prefix run makes no call of
+   the schema library at all; GET moves from 18..20 to 25..27 *)
+Module CommentExample.
+  Import ShiftExample.
+  Definition text : bytes := bs " note".
+  Definition cw : bytes := comment_line text.
+
+  Example premises :
+    exists g acc,
+      prefix_run o0 o0 (a ++ b) 18 = Some (g, acc) /\ prefix_calls o0 o0 (a ++ b) 18 = [] /\
+      reg g = StExpectKeyword /\ estk g = [] /\ List.length acc = 4%nat /\
+      forallb plain_comment_byte text = true /\ line_start a.
+  Proof.
+    eexists. eexists. split; [vm_compute; reflexivity|]. repeat split; try (vm_compute; reflexivity).
+    right. exists (bs "JSIGHT 0.3" ++ [10] ++ bs "URL /a"). vm_compute. reflexivity.
+  Qed.
+
+  Example comment_line_between_directives :
+    spans (scan o0 o0 (a ++ b)) = [(0, 5); (7, 9); (11, 13); (15, 16); (18, 20)] /\
+    spans (scan o0 o0 (a ++ cw ++ b)) = [(0, 5); (7, 9); (11, 13); (15, 16); (25, 27)] /\
+    verdict (scan o0 o0 (a ++ cw ++ b)) = SEof.
+  Proof. repeat split; vm_compute; reflexivity. Qed.
+
+  Example theorem_applies :
+    exists acc ls,
+      fst (fst (scan o0 o0 (a ++ b))) = rev acc ++ ls /\
+      fst (fst (scan o0 o0 (a ++ cw ++ b))) = rev acc ++ map (shL 7) ls /\ List.length acc = 4%nat.
+  Proof.
+    destruct premises as (g & acc & P1 & Pc & Hreg & He & Hn & Hp & Hl).
+    destruct (comment_line_at_line_start_shift_lemma o0 o0 a text b g acc o0_sane o0_sane) as (ls & A & B & C); try assumption.
+    - unfold isb. vm_compute. repeat constructor.
+    - unfold isb. vm_compute. repeat constructor.
+    - discriminate.
+    - change (N.of_nat (List.length a)) with 18. rewrite Pc. constructor.
+    - rewrite Hreg. vm_compute. auto 20.
+    - rewrite Hreg. vm_compute. auto 20.
+    - exists acc, ls. split; [exact A|]. split; [exact B | exact Hn].
+  Qed.
+End CommentExample.
